@@ -1,617 +1,762 @@
 (* XCodegenExpr.v -- a model of xcmp's expression code generation (xcmp.hpp ExprCodeGen, genBinopOperands,
-   genConst, genVar) for the fragment
-       e ::= number | global variable | e + e | e - e          (any nesting on both sides)
-   including xcmp's constant folding of number-only subtrees and its spilling of right operands that need
-   areg (needsAReg: the right operand is generated first, saved in a frame temporary, the left operand is
-   generated with the frame offset bumped, the temporary is reloaded into breg), and its correctness against
-   the ISA spec Isa.step and the X spec XSem.eval.
+   genConst, genVar, and the lowering of frame-base relative operands) and its correctness against the ISA spec
+   Isa.step and the X spec XSem.eval.
 
-   Interface to the assembler (Layer A of DESIGN.md C01): `instr_at m pos nxt i` says that the bytes of
-   instruction i occupy [pos, nxt) of memory m in the sense of the ISA itself -- started at pos with a clear
-   operand register the ISA runs through the prefix bytes (silent steps that change nothing but pc and oreg) and
-   arrives at the instruction byte with i's opcode and i's 32-bit operand accumulated.  That is what
-   AsmSpecProofs.decode_exec establishes for every image the assembler validator accepts.
+   Input: expressions in the form the code generator reads them, i.e. after constant propagation and the
+   operator rewrites (XConstProp.front; property C07 covers those passes): folded constants are literals,
+   ~=, >=, >, <= and unary minus have been rewritten, so the operators are + - and or = < and ~.
+   Fragment: literals (operand-encoded or from the constant pool), global variables, locals and value formals
+   (frame words), + and - nested to any depth on both sides (right operands that need areg are spilled to frame
+   temporaries), =, < (with xcmp's special cases for a literal zero), ~, and/or (short circuit), all with the
+   generated labels and branches.  Not in the fragment: calls, system calls, subscripts, strings.
 
-   cg_correct: if XSem evaluates e to n (so no overflow, no unassigned read), then running the generated code
-   from its first byte leaves n mod 2^32 in areg, the operand register clear, the program counter just behind
-   the code, and a memory that differs from the initial one only in frame temporaries at or above the current
+   cg_correct: if XSem evaluates e to n in a state related to the machine memory, then the generated code, run
+   from its first byte, ends just behind the code with n mod 2^32 in the requested register, the operand register
+   clear, and a memory that differs from the initial one only in frame temporaries at or above the current
    frame offset -- for every nesting depth. *)
 From Coq Require Import ZArith List String Bool Lia.
-From HexVerif Require Import WMap Isa XAst XSem.
+From HexVerif Require Import WMap Isa XAst XSem XCodegenIsa XCodegenInv.
 Import ListNotations.
 Local Open Scope Z_scope.
 
 Ltac Zify.zify_post_hook ::= Z.div_mod_to_equations.
 
-(* ---------------------------------------------------------------- the generated instructions *)
 Inductive reg := RA | RB.
-Inductive instr := LDAC (v : Z) | LDBC (v : Z) | LDAM (a : Z) | LDBM (a : Z) | ADD | SUB | STAI (k : Z) | LDBI (k : Z).
+(* where a variable lives: an absolute word (global: its DATA label), or a frame word at sp + k (local j of a
+   frame of `size` words: k = size - 1 - j; formal i: k = size + 2 + i for a function, size + 1 + i for a procedure) *)
+Inductive loc := LGlobal (a : Z) | LFrame (k : Z).
 
-(* opcode nibble and the 32-bit operand the ISA must have accumulated at the instruction byte *)
-Definition opcode (i : instr) : Z * Z :=
-  match i with
-  | LDAM a => (0, a)
-  | LDBM a => (1, a)
-  | LDAC v => (3, v mod W)
-  | LDBC v => (4, v mod W)
-  | ADD => (13, 1)
-  | SUB => (13, 2)
-  | STAI k => (8, k)
-  | LDBI k => (7, k)
-  end.
+Definition obind {A B : Type} (o : option A) (k : A -> option B) : option B :=
+  match o with Some a => k a | None => None end.
+Notation "'do' x <- a ; b" := (obind a (fun x => b)) (at level 200, x pattern, a at level 100, b at level 200).
 
 (* ---------------------------------------------------------------- model of the code generator *)
+Definition small (v : Z) : bool := (-65536 <? v) && (v <? 65536).
+Definition ldc (r : reg) (v : Z) : instr := match r with RA => LDAC v | RB => LDBC v end.
+Definition ldm (r : reg) (a : Z) : instr := match r with RA => LDAM a | RB => LDBM a end.
+
+Definition lit_of (e : expr) : option Z :=
+  match e with ENum n => Some (signed32 n) | EBool b => Some (of_bool b) | _ => None end.
+(* not needsAReg: a constant or a variable reference *)
+Definition simple (e : expr) : bool :=
+  match e with ENum _ => true | EBool _ => true | EVar _ => true | _ => false end.
+Definition is_zero (e : expr) : bool :=
+  match lit_of e with Some v => v =? 0 | None => false end.
+
+(* trueLabel = n, endLabel = n + 1:   br true; LDAC 0; BR end; true: LDAC 1; end: *)
+Definition bool_tail (br : label -> instr) (n : label) : list instr :=
+  [br n; LDAC 0; BR (n + 1); LABEL n; LDAC 1; LABEL (n + 1)].
+
+Definition cgfun : Type := label -> Z -> option (list instr * label).
+
 Section Codegen.
-  Variable addr : string -> option Z.      (* word address of each global variable (its DATA label) *)
+  Variable venv : string -> option loc.      (* the symbols of the current scope *)
+  Variable pool : Z -> option Z.             (* word address of a constant-pool entry *)
+  Variable size : Z.                         (* frame size of the procedure *)
+  Variable nslots : Z.                       (* frame offsets below nslots are usable *)
 
-  (* ConstProp on the fragment: numbers, + and - of constants (C int arithmetic; the theorem only speaks of
-     evaluations XSem defines, where no overflow occurs) *)
-  Fixpoint const_of (e : expr) : option Z :=
+  (* genConst *)
+  Definition gen_const (r : reg) (v : Z) : option (list instr) :=
+    if small v then Some [ldc r v]
+    else match pool v with Some a => Some [ldm r a] | None => None end.
+  (* genVar *)
+  Definition gen_var (r : reg) (l : loc) : list instr :=
+    match l with
+    | LGlobal a => [ldm r a]
+    | LFrame k => match r with RA => [LDAM 1; LDAI k] | RB => [LDBM 1; LDBI k] end
+    end.
+
+  (* genBinopOperands followed by the operator *)
+  Definition arith_code (opi : instr) (smpl : bool) (cgl cgrA cgrB : cgfun) (n : label) (off : Z)
+    : option (list instr * label) :=
+    if smpl then
+      do (cl, n1) <- cgl n off; do (cr, n2) <- cgrB n1 off; Some (cl ++ cr ++ [opi], n2)
+    else if (0 <=? off) && (off <? nslots) then
+      do (cr, n1) <- cgrA n off; do (cl, n2) <- cgl n1 (off + 1);
+      Some (cr ++ [LDBM 1; STAI (size - 1 - off)] ++ cl ++ [LDBM 1; LDBI (size - 1 - off)] ++ [opi], n2)
+    else None.
+
+  (* genExpr(e, reg) with the next label number n and the frame offset off; returns the code and the next label *)
+  Fixpoint cg (e : expr) (r : reg) (n : label) (off : Z) : option (list instr * label) :=
     match e with
-    | ENum n => Some (signed32 n)
-    | EBin Plus l r => match const_of l, const_of r with Some a, Some b => Some (a + b) | _, _ => None end
-    | EBin Minus l r => match const_of l, const_of r with Some a, Some b => Some (a - b) | _, _ => None end
-    | _ => None
-    end.
-
-  (* genConst: operand-encoded when -65536 < v < 65536 (larger values go to the constant pool: outside the fragment) *)
-  Definition small (v : Z) : bool := (-65536 <? v) && (v <? 65536).
-  Definition ldc (r : reg) (v : Z) : instr := match r with RA => LDAC v | RB => LDBC v end.
-  Definition ldm (r : reg) (a : Z) : instr := match r with RA => LDAM a | RB => LDBM a end.
-
-  (* not needsAReg: the right operand is a (folded) constant or a variable reference *)
-  Definition simple_right (e : expr) : bool :=
-    match const_of e with
-    | Some _ => true
-    | None => match e with EVar _ => true | _ => false end
-    end.
-
-  Variable size : Z.         (* the frame size of the procedure (known when the directives are lowered) *)
-  Variable nslots : Z.       (* frame words available for temporaries *)
-
-  (* genExpr(e, reg) at frame offset off; a frame-base relative slot -off is lowered to sp + size - 1 - off *)
-  Fixpoint cg (e : expr) (r : reg) (off : Z) : option (list instr) :=
-    match const_of e with
-    | Some v => if small v then Some [ldc r v] else None
-    | None =>
-        match e with
-        | EVar x => match addr x with Some a => Some [ldm r a] | None => None end
-        | EBin o l rr =>
-            match o, r with
-            | Plus, RA | Minus, RA =>
-                let opi := match o with Plus => ADD | _ => SUB end in
-                if simple_right rr then
-                  match cg l RA off, cg rr RB off with
-                  | Some cl, Some cr => Some (cl ++ cr ++ [opi])
-                  | _, _ => None
-                  end
-                else if (0 <=? off) && (off <? nslots) then
-                  (* genBinopOperands, needsAReg(RHS): RHS first, saved at frame offset off; LHS at off + 1 *)
-                  match cg rr RA off, cg l RA (off + 1) with
-                  | Some cr, Some cl =>
-                      Some (cr ++ [LDBM 1; STAI (size - 1 - off)] ++ cl ++ [LDBM 1; LDBI (size - 1 - off)] ++ [opi])
-                  | _, _ => None
-                  end
-                else None
-            | _, _ => None
-            end
-        | _ => None
+    | ENum _ => do v <- lit_of e; do c <- gen_const r v; Some (c, n)
+    | EBool _ => do v <- lit_of e; do c <- gen_const r v; Some (c, n)
+    | EVar x => do l <- venv x; Some (gen_var r l, n)
+    | EUn Not a =>
+        match r with
+        | RA => do (c, n1) <- cg a RA (n + 2) off; Some (c ++ bool_tail BRZ n, n1)
+        | RB => None
         end
+    | EBin o l rr =>
+        match r with
+        | RB => None
+        | RA =>
+          let sub := arith_code SUB (simple rr) (cg l RA) (cg rr RA) (cg rr RB) in
+          match o with
+          | Plus => arith_code ADD (simple rr) (cg l RA) (cg rr RA) (cg rr RB) n off
+          | Minus => sub n off
+          | And => do (cl, n1) <- cg l RA (n + 1) off; do (cr, n2) <- cg rr RA n1 off;
+                   Some (cl ++ [BRZ n] ++ cr ++ [LABEL n], n2)
+          | Or => do (cl, n1) <- cg l RA (n + 2) off; do (cr, n2) <- cg rr RA n1 off;
+                  Some (cl ++ [BRZ n; BR (n + 1); LABEL n] ++ cr ++ [LABEL (n + 1)], n2)
+          | Eq => do (c, n1) <- (if is_zero l then cg rr RA n off else if is_zero rr then cg l RA n off else sub n off);
+                  Some (c ++ bool_tail BRZ n1, n1 + 2)
+          | Ls => do (c, n1) <- (if is_zero rr then cg l RA n off else sub n off);
+                  Some (c ++ bool_tail BRN n1, n1 + 2)
+          | _ => None
+          end
+        end
+    | _ => None
     end.
 End Codegen.
 
-(* ---------------------------------------------------------------- the ISA on instruction bytes *)
-Definition mk (p a b o : Z) (m : WMap.t) : arch := {| pc := p; areg := a; breg := b; oreg := o; mem := m |}.
+(* the symbols a procedure body sees (CreateSymbols, FormalLocations, LocalDeclLocations and the lowering of
+   frame-base relative operands): local declaration j (val and var alike) is the frame word sp + size - 1 - j,
+   value formal i is sp + size + 2 + i in a function and sp + size + 1 + i in a procedure (the caller's
+   outgoing area); a local name hides the global of that name; other names are the global variables *)
+Fixpoint index_of (x : string) (l : list string) (i : Z) : option Z :=
+  match l with [] => None | y :: r => if String.eqb x y then Some i else index_of x r (i + 1) end.
+Definition local_decl_name (d : decl) : string := match d with DVal x _ => x | DVar x => x | DArray x _ => x end.
+Definition is_var_decl (d : decl) : bool := match d with DVar _ => true | _ => false end.
+Definition is_val_formal (f : formal) : bool := match f with FVal _ => true | _ => false end.
+Definition formal_nm (f : formal) : string := match f with FVal x => x | FArray x => x | FProc x => x | FFunc x => x end.
 
-(* silent runs: some number of instructions that emit no event and leave the input untouched *)
-Definition taus (inp : inputs) (s s' : arch) : Prop :=
-  exists k, Isa.run k s inp [] = ([], inp, s', Cut).
+Definition frame_venv (gaddr : string -> option Z) (p : proc) (size : Z) : string -> option loc :=
+  fun x =>
+    match index_of x (map local_decl_name (locals p)) 0 with
+    | Some j => if existsb (fun d => String.eqb x (local_decl_name d) && is_var_decl d) (locals p)
+                then Some (LFrame (size - 1 - j)) else None
+    | None =>
+        match index_of x (map formal_nm (formals p)) 0 with
+        | Some i => if existsb (fun f => String.eqb x (formal_nm f) && is_val_formal f) (formals p)
+                    then Some (LFrame (size + (if is_func p then 2 else 1) + i)) else None
+        | None => match gaddr x with Some a => Some (LGlobal a) | None => None end
+        end
+    end.
+(* the first frame offset free for temporaries: one word per local declaration *)
+Definition first_temp (p : proc) : Z := Z.of_nat (List.length (locals p)).
 
-Lemma run_compose : forall k1 s inp0 evs l inp1 s1,
-  Isa.run k1 s inp0 evs = (l, inp1, s1, Cut) ->
-  forall k2, Isa.run (k1 + k2) s inp0 evs = Isa.run k2 s1 inp1 (rev l).
-Proof.
-  induction k1 as [|k IH]; intros s inp0 evs l inp1 s1 H k2.
-  - cbn [Isa.run] in H. inversion H; subst. rewrite rev_involutive. reflexivity.
-  - cbn [Isa.run Nat.add] in *. destruct (step s inp0) as [[[s' inp'] ev]|u]; [|discriminate].
-    destruct ev; try discriminate; eapply IH; exact H.
-Qed.
-
-Lemma taus_refl inp s : taus inp s s.
-Proof. exists O. reflexivity. Qed.
-
-Lemma taus_trans inp s1 s2 s3 : taus inp s1 s2 -> taus inp s2 s3 -> taus inp s1 s3.
-Proof.
-  intros [k1 H1] [k2 H2]. exists (k1 + k2)%nat.
-  rewrite (run_compose k1 s1 inp [] [] inp s2 H1 k2). exact H2.
-Qed.
-
-Lemma taus_one inp s s1 : step s inp = Ok (s1, inp, Tau) -> taus inp s s1.
-Proof. intros H. exists 1%nat. cbn [Isa.run]. rewrite H. reflexivity. Qed.
-
-Definition at_byte (s : arch) (opc o : Z) : Prop :=
-  in_mem (pc s / 4) = true /\ fetch s / 16 = opc /\ Z.lor (oreg s) (fetch s mod 16) = o.
-
-(* C: the memories in which the code is intact (the code generator's stores go to frame words only) *)
-Definition instr_at (C : WMap.t -> Prop) (pos nxt : Z) (i : instr) : Prop :=
-  0 <= pos < nxt /\
-  forall m a b inp, C m -> exists s',
-    taus inp (mk pos a b 0 m) s' /\ pc s' = nxt - 1 /\ areg s' = a /\ breg s' = b /\ mem s' = m /\
-    at_byte s' (fst (opcode i)) (snd (opcode i)).
-
-Fixpoint code_at (C : WMap.t -> Prop) (pos : Z) (c : list instr) (nxt : Z) : Prop :=
-  match c with
-  | [] => pos = nxt
-  | i :: r => exists mid, instr_at C pos mid i /\ code_at C mid r nxt
-  end.
-
-Lemma code_at_le C : forall c pos nxt, code_at C pos c nxt -> pos <= nxt.
-Proof.
-  induction c as [|i r IH]; intros pos nxt H; cbn [code_at] in H.
-  - lia.
-  - destruct H as (mid & [Hp _] & Hr). specialize (IH mid nxt Hr). lia.
-Qed.
-
-Lemma code_at_app C : forall c1 c2 pos nxt,
-  code_at C pos (c1 ++ c2) nxt -> exists mid, code_at C pos c1 mid /\ code_at C mid c2 nxt.
-Proof.
-  induction c1 as [|i r IH]; intros c2 pos nxt H; cbn [app code_at] in *.
-  - exists pos. split; [reflexivity | exact H].
-  - destruct H as (mid & Hi & Hr). destruct (IH c2 mid nxt Hr) as (mid2 & H1 & H2).
-    exists mid2. split; [exists mid; split; assumption | exact H2].
-Qed.
-
-(* one step at the instruction byte, opcode by opcode *)
-Lemma step_ldac s inp o : at_byte s 3 o ->
-  step s inp = Ok (mk (wrap (pc s + 1)) o (breg s) 0 (mem s), inp, Tau).
-Proof. intros (Hm & Hop & Ho). unfold step. rewrite Hm. cbv beta iota zeta delta [negb]. rewrite Hop, Ho. reflexivity. Qed.
-
-Lemma step_ldbc s inp o : at_byte s 4 o ->
-  step s inp = Ok (mk (wrap (pc s + 1)) (areg s) o 0 (mem s), inp, Tau).
-Proof. intros (Hm & Hop & Ho). unfold step. rewrite Hm. cbv beta iota zeta delta [negb]. rewrite Hop, Ho. reflexivity. Qed.
-
-Lemma step_ldam s inp o : at_byte s 0 o -> in_mem o = true ->
-  step s inp = Ok (mk (wrap (pc s + 1)) (rd (mem s) o) (breg s) 0 (mem s), inp, Tau).
-Proof. intros (Hm & Hop & Ho) Hin. unfold step. rewrite Hm. cbv beta iota zeta delta [negb]. rewrite Hop, Ho, Hin. reflexivity. Qed.
-
-Lemma step_ldbm s inp o : at_byte s 1 o -> in_mem o = true ->
-  step s inp = Ok (mk (wrap (pc s + 1)) (areg s) (rd (mem s) o) 0 (mem s), inp, Tau).
-Proof. intros (Hm & Hop & Ho) Hin. unfold step. rewrite Hm. cbv beta iota zeta delta [negb]. rewrite Hop, Ho, Hin. reflexivity. Qed.
-
-Lemma step_add s inp : at_byte s 13 1 ->
-  step s inp = Ok (mk (wrap (pc s + 1)) (wrap (areg s + breg s)) (breg s) 0 (mem s), inp, Tau).
-Proof. intros (Hm & Hop & Ho). unfold step. rewrite Hm. cbv beta iota zeta delta [negb]. rewrite Hop, Ho. reflexivity. Qed.
-
-Lemma step_sub s inp : at_byte s 13 2 ->
-  step s inp = Ok (mk (wrap (pc s + 1)) (wrap (areg s - breg s)) (breg s) 0 (mem s), inp, Tau).
-Proof. intros (Hm & Hop & Ho). unfold step. rewrite Hm. cbv beta iota zeta delta [negb]. rewrite Hop, Ho. reflexivity. Qed.
-
-Lemma step_stai s inp o : at_byte s 8 o -> in_mem (wrap (breg s + o)) = true ->
-  step s inp = Ok (mk (wrap (pc s + 1)) (areg s) (breg s) 0 (wr (mem s) (wrap (breg s + o)) (areg s)), inp, Tau).
-Proof. intros (Hm & Hop & Ho) Hin. unfold step. rewrite Hm. cbv beta iota zeta delta [negb]. rewrite Hop, Ho, Hin. reflexivity. Qed.
-
-Lemma step_ldbi s inp o : at_byte s 7 o -> in_mem (wrap (breg s + o)) = true ->
-  step s inp = Ok (mk (wrap (pc s + 1)) (areg s) (rd (mem s) (wrap (breg s + o))) 0 (mem s), inp, Tau).
-Proof. intros (Hm & Hop & Ho) Hin. unfold step. rewrite Hm. cbv beta iota zeta delta [negb]. rewrite Hop, Ho, Hin. reflexivity. Qed.
-
-(* what an instruction does to areg, breg and memory *)
-Definition sem (i : instr) (a b : Z) (m : WMap.t) : Z * Z * WMap.t :=
-  match i with
-  | LDAC v => (v mod W, b, m)
-  | LDBC v => (a, v mod W, m)
-  | LDAM x => (rd m x, b, m)
-  | LDBM x => (a, rd m x, m)
-  | ADD => (wrap (a + b), b, m)
-  | SUB => (wrap (a - b), b, m)
-  | STAI k => (a, b, wr m (wrap (b + k)) a)
-  | LDBI k => (a, rd m (wrap (b + k)), m)
-  end.
-Definition readable (i : instr) (b : Z) : Prop :=
-  match i with
-  | LDAM x => in_mem x = true
-  | LDBM x => in_mem x = true
-  | STAI k => in_mem (wrap (b + k)) = true
-  | LDBI k => in_mem (wrap (b + k)) = true
-  | _ => True
-  end.
-
-Lemma exec_instr C m pos nxt i a b inp :
-  instr_at C pos nxt i -> C m -> readable i b -> nxt < W ->
-  taus inp (mk pos a b 0 m)
-       (mk nxt (fst (fst (sem i a b m))) (snd (fst (sem i a b m))) 0 (snd (sem i a b m))).
-Proof.
-  intros [Hpos Hat] HC Hr Hn. destruct (Hat m a b inp HC) as (s' & Ht & Hpc & Ha & Hb & Hm & Hby).
-  eapply taus_trans; [exact Ht|]. apply taus_one.
-  assert (Hw : wrap (pc s' + 1) = nxt) by (rewrite Hpc; unfold wrap; replace (nxt - 1 + 1) with nxt by lia; apply Z.mod_small; lia).
-  destruct i; cbn [opcode fst snd] in Hby; cbn [sem fst snd]; cbn [readable] in Hr.
-  - rewrite (step_ldac s' inp _ Hby). rewrite Hw, Hb, Hm. reflexivity.
-  - rewrite (step_ldbc s' inp _ Hby). rewrite Hw, Ha, Hm. reflexivity.
-  - rewrite (step_ldam s' inp _ Hby Hr). rewrite Hw, Hb, Hm. reflexivity.
-  - rewrite (step_ldbm s' inp _ Hby Hr). rewrite Hw, Ha, Hm. reflexivity.
-  - rewrite (step_add s' inp Hby). rewrite Hw, Ha, Hb, Hm. reflexivity.
-  - rewrite (step_sub s' inp Hby). rewrite Hw, Ha, Hb, Hm. reflexivity.
-  - rewrite <- Hb in Hr. rewrite (step_stai s' inp _ Hby Hr). rewrite Hw, Ha, Hb, Hm. reflexivity.
-  - rewrite <- Hb in Hr. rewrite (step_ldbi s' inp _ Hby Hr). rewrite Hw, Ha, Hb, Hm. reflexivity.
-Qed.
-
-(* ---------------------------------------------------------------- inversion of the spec interpreter *)
-Lemma rcase_ret {A B} (r : res A) kr kh (b : B) s :
-  rcase r kr kh = Ret b s ->
-  (exists a s0, r = Ret a s0 /\ kr a s0 = Ret b s) \/ (exists c s0, r = Halt c s0 /\ kh c s0 = Ret b s).
-Proof. destruct r as [a s0|c s0|u]; cbn [rcase]; intros H; [left|right|discriminate]; eauto. Qed.
-
-Lemma bind_ret {A B} (r : res A) k (b : B) s :
-  bind r k = Ret b s -> exists a s0, r = Ret a s0 /\ k a s0 = Ret b s.
-Proof. unfold bind. intros H. apply rcase_ret in H. destruct H as [H|(c & s0 & _ & H)]; [exact H | discriminate]. Qed.
-
-Lemma with_eff_ret {A} (m : state -> res A) st (a : A) e s :
-  with_eff m st = Ret (a, e) s ->
-  exists s0, m (set_cur st eff0) = Ret a s0 /\ e = cur s0 /\ s = set_cur s0 (eff_union (cur st) (cur s0)).
-Proof.
-  unfold with_eff. intros H. apply rcase_ret in H. destruct H as [(a0 & s0 & H1 & H2)|(c & s0 & _ & H)]; [|discriminate].
-  inversion H2; subst. exists s0. repeat split. exact H1.
-Qed.
-
-(* the state components the fragment never changes *)
-Definition same_store (s s' : state) : Prop := gvars s' = gvars s /\ stk s' = stk s.
-Lemma same_store_refl s : same_store s s. Proof. split; reflexivity. Qed.
-Lemma same_store_trans a b c : same_store a b -> same_store b c -> same_store a c.
-Proof. intros [H1 H2] [H3 H4]. split; congruence. Qed.
-Lemma same_store_set_cur s e : same_store s (set_cur s e). Proof. split; reflexivity. Qed.
-
-Lemma evals_two f ge l r st L s :
-  evals f ge [l; r] st = Ret L s ->
-  exists f1 f2 vl sl vr sr,
-    eval f1 ge l (set_cur st eff0) = Ret vl sl /\
-    eval f2 ge r (set_cur (set_cur sl (eff_union (cur st) (cur sl))) eff0) = Ret vr sr /\
-    map fst L = [vl; vr] /\ same_store sr s.
-Proof.
-  destruct f as [|f1]; [discriminate|]. cbn [evals]. unfold evals_body at 1. intros H.
-  apply rcase_ret in H. destruct H as [([vl el] & s1 & H1 & H)|(c & s0 & _ & H)].
-  2:{ destruct (forallb harmless [r]); discriminate. }
-  apply with_eff_ret in H1. destruct H1 as (sl & Hl & -> & ->).
-  apply rcase_ret in H. destruct H as [(L1 & s2 & H2 & H)|(c & s0 & _ & H)].
-  2:{ cbn [snd] in H. destruct (e_io (cur sl)); discriminate. }
-  inversion H; subst L s; clear H.
-  destruct f1 as [|f2]; [discriminate|]. cbn [evals] in H2. unfold evals_body at 1 in H2.
-  apply rcase_ret in H2. destruct H2 as [([vr er] & s3 & H3 & H)|(c & s0 & _ & H)].
-  2:{ cbn [forallb] in H. discriminate. }
-  apply with_eff_ret in H3. destruct H3 as (sr & Hr & -> & ->).
-  apply rcase_ret in H. destruct H as [(L2 & s4 & H4 & H)|(c & s0 & _ & H)].
-  2:{ cbn [snd] in H. destruct (e_io (cur sr)); discriminate. }
-  inversion H; subst L1 s2; clear H.
-  destruct f2 as [|f3]; [discriminate|]. cbn [evals evals_body] in H4. inversion H4; subst L2 s4; clear H4.
-  exists (S (S f3)), (S f3), vl, sl, vr, sr. repeat split; try assumption.
-Qed.
-
-Lemma eval_arith f ge o l r st v s :
-  (o = Plus \/ o = Minus) -> eval f ge (EBin o l r) st = Ret v s ->
-  exists f1 f2 x y sl sr z,
-    eval f1 ge l (set_cur st eff0) = Ret (Vint x) sl /\
-    eval f2 ge r (set_cur (set_cur sl (eff_union (cur st) (cur sl))) eff0) = Ret (Vint y) sr /\
-    binop_ans o x y = inr z /\ v = Vint z /\ same_store sr s.
-Proof.
-  intros Ho. destruct f as [|f0]; [discriminate|]. cbn [eval].
-  assert (E : eval_body (eval f0 ge) (evals f0 ge) (exec f0 ge) ge (EBin o l r) st =
-              bind (operands (evals f0 ge) [l; r] st) (fun vs s1 =>
-                match vs with
-                | [a; b] => int_of a (fun x => int_of b (fun y =>
-                              match binop_ans o x y with inr z => Ret (Vint z) s1 | inl u => Fail u end))
-                | _ => Fail (Unsupported "internal: operands")
-                end)) by (destruct Ho as [-> | ->]; reflexivity).
-  rewrite E. clear E. intros H.
-  apply bind_ret in H. destruct H as (vs & s1 & H1 & H).
-  unfold operands in H1. apply bind_ret in H1. destruct H1 as (L & s2 & H2 & H1).
-  destruct (conflicts (map snd L)); [discriminate|]. inversion H1; subst vs s1; clear H1.
-  destruct (evals_two f0 ge l r st L s2 H2) as (f1 & f2 & vl & sl & vr & sr & Hl & Hr & HL & Hss).
-  rewrite HL in H.
-  destruct vl as [|x|?|?]; try discriminate. destruct vr as [|y|?|?]; try discriminate.
-  cbn [int_of] in H. destruct (binop_ans o x y) as [u|z] eqn:Eb; [discriminate|].
-  inversion H; subst v s; clear H.
-  exists f1, f2, x, y, sl, sr, z. repeat split; try assumption; apply Hss.
-Qed.
-
-(* ---------------------------------------------------------------- correctness of the fragment *)
+(* ---------------------------------------------------------------- correctness *)
 Section Correct.
-  Variable addr : string -> option Z.
+  Variable venv : string -> option loc.
+  Variable pool : Z -> option Z.
+  Variables size nslots : Z.
   Variable ge : genv.
-  Variable m0 : WMap.t.                 (* the memory when the expression's code starts *)
-  Variables sp size nslots : Z.         (* stack pointer mem[1], frame size, frame words usable as temporaries *)
+  Variable P : Z -> Prop.               (* the words that are never stored to: code and constant pool *)
+  Variable m0 : WMap.t.                 (* the loaded image *)
+  Variable lab : label -> Z.            (* position of every label *)
+  Variable sp : Z.                      (* the stack pointer mem[1] while the procedure body runs *)
+  Variable off0 : Z.                    (* first frame offset usable for temporaries (the locals come first) *)
+  Variable mr : WMap.t.                 (* the memory when the expression's code starts *)
 
-  (* the temporaries: frame offset k lives at sp + size - 1 - k, for 0 <= k < nslots *)
-  Definition thi : Z := sp + size - 1.
-  Definition tlo : Z := sp + size - nslots.
-  Definition T (a : Z) : Prop := tlo <= a <= thi.
-  (* memories that differ from m0 in temporaries only *)
-  Definition C (m : WMap.t) : Prop := forall a, 0 <= a -> ~ T a -> rd m a = rd m0 a.
-  (* m' differs from m only in temporaries of frame offset >= off *)
-  Definition keeps (off : Z) (m m' : WMap.t) : Prop := forall a, 0 <= a -> ~ (tlo <= a <= thi - off) -> rd m' a = rd m a.
+  Definition C (m : WMap.t) : Prop := forall a, 0 <= a -> P a -> rd m a = rd m0 a.
+  Definition fb : Z := sp + size - 1.
+  Definition tlo : Z := fb - nslots + 1.
+  Definition T (a : Z) : Prop := tlo <= a <= fb - off0.
+  Definition keeps (off : Z) (m m' : WMap.t) : Prop :=
+    forall a, 0 <= a -> ~ (tlo <= a <= fb - off) -> rd m' a = rd m a.
+  Definition K (m : WMap.t) : Prop := keeps off0 mr m.
 
-  Hypothesis Hsp : rd m0 1 = sp.
-  Hypothesis Hsp_not_temp : ~ T 1.
-  Hypothesis Htemps_in_memory : 0 <= tlo /\ thi < MEMW.
-  Hypothesis Hglobals_not_temps : forall x a, addr x = Some a -> ~ T a.
+  Hypothesis Hmr_C : C mr.
+  Hypothesis Hmr_sp : rd mr 1 = sp.
+  Hypothesis HT_mem : 0 <= tlo /\ fb - off0 < MEMW.
+  Hypothesis HT_P : forall a, T a -> ~ P a.
+  Hypothesis HT_1 : ~ T 1.
+  Hypothesis Hpool : forall v a, pool v = Some a -> P a /\ in_mem a = true /\ rd m0 a = v mod W.
+  Hypothesis Hglob : forall x a, venv x = Some (LGlobal a) -> in_mem a = true /\ ~ T a.
+  Hypothesis Hframe : forall x k, venv x = Some (LFrame k) -> in_mem (sp + k) = true /\ ~ T (sp + k).
 
-  Lemma C_m0 : C m0. Proof. intros a _ _. reflexivity. Qed.
   Lemma keeps_refl off m : keeps off m m. Proof. intros a _ _. reflexivity. Qed.
   Lemma keeps_trans off m1 m2 m3 : keeps off m1 m2 -> keeps off m2 m3 -> keeps off m1 m3.
   Proof. intros H1 H2 a Ha Hn. rewrite (H2 a Ha Hn). apply H1; assumption. Qed.
   Lemma keeps_weaken off off' m m' : off <= off' -> keeps off' m m' -> keeps off m m'.
   Proof. intros Hle H a Ha Hn. apply H; [exact Ha|]. lia. Qed.
-  Lemma keeps_C off m m' : 0 <= off -> C m -> keeps off m m' -> C m'.
-  Proof. intros Ho HC Hk a Ha Hn. rewrite (Hk a Ha). - apply HC; assumption. - unfold T in Hn. lia. Qed.
-  Lemma keeps_wr off m a v : tlo <= a <= thi - off -> keeps off m (wr m a v).
+  Lemma keeps_wr off m a v : tlo <= a <= fb - off -> keeps off m (wr m a v).
   Proof. intros Ha b Hb Hn. apply rd_wr_other; lia. Qed.
-
+  Lemma K_keeps off m m' : off0 <= off -> K m -> keeps off m m' -> K m'.
+  Proof. intros Ho HK Hk. unfold K. eapply keeps_trans; [exact HK|]. eapply keeps_weaken; [exact Ho | exact Hk]. Qed.
+  Lemma K_mr : K mr. Proof. apply keeps_refl. Qed.
+  Lemma K_C m : K m -> C m.
+  Proof.
+    intros HK a Ha HP. rewrite (HK a Ha).
+    - apply Hmr_C; assumption.
+    - intros HT. exact (HT_P a HT HP).
+  Qed.
+  Lemma K_sp m : K m -> rd m 1 = sp.
+  Proof. intros HK. rewrite (HK 1 ltac:(lia) HT_1). exact Hmr_sp. Qed.
+  Lemma in_mem_range a : in_mem a = true -> 0 <= a < MEMW.
+  Proof. unfold in_mem. intros H. apply andb_prop in H. destruct H as [H1 H2]. apply Z.leb_le in H1. apply Z.ltb_lt in H2. lia. Qed.
+  Lemma in_mem_wrap a : in_mem a = true -> wrap a = a.
+  Proof. intros H. apply in_mem_range in H. unfold wrap. apply Z.mod_small. unfold MEMW, W in *. lia. Qed.
   Lemma in_mem_temp a : T a -> in_mem a = true.
   Proof.
-    unfold T. intros H. destruct Htemps_in_memory as [H0 H1]. unfold in_mem.
+    unfold T. intros H. destruct HT_mem as [H0 H1]. unfold in_mem.
     apply andb_true_intro. split; [apply Z.leb_le | apply Z.ltb_lt]; lia.
   Qed.
-  Lemma wrap_temp a : T a -> wrap a = a.
-  Proof. unfold T, wrap. intros H. destruct Htemps_in_memory as [H0 H1]. apply Z.mod_small. unfold MEMW, W in *. lia. Qed.
 
-  (* the source state and the machine memory agree on the global variables; no local or val hides them *)
-  Definition env_ok (st : state) : Prop :=
-    forall x a, addr x = Some a ->
-      assoc x (f_vars (top st)) = None /\ assoc x (f_vals (top st)) = None /\ assoc x (g_vals ge) = None /\
-      in_mem a = true /\
-      exists v, assoc x (gvars st) = Some v /\ (v = Vundef \/ exists n, v = Vint n /\ rd m0 a = n mod W).
+  (* a source value and the machine word that holds it *)
+  Definition val_ok (v : value) (w : Z) : Prop :=
+    v = Vundef \/ exists n, v = Vint n /\ in_int n = true /\ w = n mod W.
 
-  Lemma env_ok_same st st' : same_store st st' -> env_ok st -> env_ok st'.
+  (* the source state and the memory mr agree on the variables; the compile-time scope is the run-time scope *)
+  Definition vars_ok (st : state) : Prop :=
+    (forall x a, venv x = Some (LGlobal a) ->
+       assoc x (f_vars (top st)) = None /\ assoc x (f_vals (top st)) = None /\ assoc x (g_vals ge) = None /\
+       exists v, assoc x (gvars st) = Some v /\ val_ok v (rd mr a)) /\
+    (forall x k, venv x = Some (LFrame k) ->
+       exists v, assoc x (f_vars (top st)) = Some v /\ val_ok v (rd mr (sp + k))).
+
+  Lemma vars_ok_same st st' : same_store st st' -> vars_ok st -> vars_ok st'.
   Proof.
-    intros [Hg Hs] H x a Hx. destruct (H x a Hx) as (H1 & H2 & H3 & H4 & H5).
-    unfold top in *. rewrite Hg, Hs. auto.
+    intros (Hg & Hs & _) [H1 H2]. unfold vars_ok, top in *. rewrite Hg, Hs. split; assumption.
   Qed.
 
-  Lemma const_eval : forall e c, const_of e = Some c ->
-    forall f st v s, eval f ge e st = Ret v s -> v = Vint c /\ same_store st s.
-  Proof.
-    induction e as [n|b|bs|x|a i|g args|n args|u e IHe|o l IHl r IHr]; intros c Hc f st v s He; cbn [const_of] in Hc; try discriminate.
-    - inversion Hc; subst c. destruct f as [|f0]; [discriminate|]. cbn [eval eval_body] in He. inversion He; subst.
-      split; [reflexivity | apply same_store_refl].
-    - destruct o; try discriminate.
-      + destruct (const_of l) as [a|] eqn:El; [|discriminate]. destruct (const_of r) as [b|] eqn:Er; [|discriminate].
-        inversion Hc; subst c.
-        destruct (eval_arith f ge Plus l r st v s (or_introl eq_refl) He) as (f1 & f2 & x & y & sl & sr & z & H1 & H2 & Hb & -> & Hss).
-        destruct (IHl a eq_refl _ _ _ _ H1) as [Hx S1]. destruct (IHr b eq_refl _ _ _ _ H2) as [Hy S2].
-        inversion Hx; inversion Hy; subst x y.
-        cbn [binop_ans] in Hb. destruct (in_int (a + b)); [|discriminate]. inversion Hb; subst z.
-        split; [reflexivity|].
-        eapply same_store_trans; [apply (same_store_set_cur st eff0)|].
-        eapply same_store_trans; [exact S1|].
-        eapply same_store_trans; [apply (same_store_set_cur sl (eff_union (cur st) (cur sl)))|].
-        eapply same_store_trans; [apply (same_store_set_cur _ eff0)|].
-        eapply same_store_trans; [exact S2 | exact Hss].
-      + destruct (const_of l) as [a|] eqn:El; [|discriminate]. destruct (const_of r) as [b|] eqn:Er; [|discriminate].
-        inversion Hc; subst c.
-        destruct (eval_arith f ge Minus l r st v s (or_intror eq_refl) He) as (f1 & f2 & x & y & sl & sr & z & H1 & H2 & Hb & -> & Hss).
-        destruct (IHl a eq_refl _ _ _ _ H1) as [Hx S1]. destruct (IHr b eq_refl _ _ _ _ H2) as [Hy S2].
-        inversion Hx; inversion Hy; subst x y.
-        cbn [binop_ans] in Hb. destruct (in_int (a - b)); [|discriminate]. inversion Hb; subst z.
-        split; [reflexivity|].
-        eapply same_store_trans; [apply (same_store_set_cur st eff0)|].
-        eapply same_store_trans; [exact S1|].
-        eapply same_store_trans; [apply (same_store_set_cur sl (eff_union (cur st) (cur sl)))|].
-        eapply same_store_trans; [apply (same_store_set_cur _ eff0)|].
-        eapply same_store_trans; [exact S2 | exact Hss].
-  Qed.
-
-  Lemma var_eval x a f st v s : addr x = Some a -> env_ok st -> eval f ge (EVar x) st = Ret v s ->
-    exists n, v = Vint n /\ rd m0 a = n mod W /\ in_mem a = true /\ same_store st s.
-  Proof.
-    intros Hx Henv He. destruct f as [|f0]; [discriminate|]. cbn [eval eval_body] in He. unfold read_var in He.
-    destruct (Henv x a Hx) as (H1 & H2 & H3 & H4 & (w & H5 & H6)).
-    rewrite H1, H2, H3, H5 in He.
-    destruct H6 as [->|(n & -> & Hn)]; [discriminate|].
-    inversion He; subst v s. exists n. repeat split; try assumption.
-  Qed.
-
-  (* what the code must leave in the requested register, from any admissible memory *)
-  Definition lands (r : reg) (code : list instr) (n off : Z) : Prop :=
-    forall m pos nxt a b inp, C m -> code_at C pos code nxt -> nxt < W ->
+  (* what the code must leave in the requested register (as a machine word w), from any admissible memory *)
+  Definition lands (r : reg) (code : list instr) (w off : Z) : Prop :=
+    forall m pos nxt a b inp, K m -> code_at C lab pos code nxt -> 0 <= pos -> nxt < W ->
       match r with
-      | RA => exists b' m', taus inp (mk pos a b 0 m) (mk nxt (n mod W) b' 0 m') /\ keeps off m m'
-      | RB => taus inp (mk pos a b 0 m) (mk nxt a (n mod W) 0 m)
+      | RA => exists b' m', taus inp (mk pos a b 0 m) (mk nxt w b' 0 m') /\ keeps off m m'
+      | RB => taus inp (mk pos a b 0 m) (mk nxt a w 0 m)
       end.
 
-  Lemma lands_ldc r c off : lands r [ldc r c] c off.
+  Ltac one_instr Hc mid Hi := cbn [code_at] in Hc; destruct Hc as (mid & Hi & Hc).
+
+  Lemma lands_const r v c off : gen_const pool r v = Some c -> lands r c (v mod W) off.
   Proof.
-    intros m pos nxt a b inp HC Hc Hn. cbn [code_at] in Hc. destruct Hc as (mid & Hi & <-).
-    destruct r; cbn [ldc] in *.
-    - exists b, m. split; [exact (exec_instr C m pos mid (LDAC c) a b inp Hi HC I Hn) | apply keeps_refl].
-    - exact (exec_instr C m pos mid (LDBC c) a b inp Hi HC I Hn).
+    unfold gen_const. intros Hg m pos nxt a b inp HK Hc Hp Hn. pose proof (K_C m HK) as HC.
+    destruct (small v).
+    - inversion Hg; subst c. one_instr Hc mid Hi. subst mid.
+      destruct r; cbn [ldc] in Hi.
+      + exists b, m. split; [exact (exec_instr C lab m pos nxt (LDAC v) a b inp eq_refl Hi HC I Hn) | apply keeps_refl].
+      + exact (exec_instr C lab m pos nxt (LDBC v) a b inp eq_refl Hi HC I Hn).
+    - destruct (pool v) as [pa|] eqn:Ep; [|discriminate]. inversion Hg; subst c.
+      destruct (Hpool v pa Ep) as (HP & Hin & Hrd).
+      one_instr Hc mid Hi. subst mid.
+      assert (Hm : rd m pa = v mod W) by (rewrite (HC pa (proj1 (in_mem_range pa Hin)) HP); exact Hrd).
+      destruct r; cbn [ldm] in Hi.
+      + exists b, m. split; [|apply keeps_refl]. rewrite <- Hm.
+        exact (exec_instr C lab m pos nxt (LDAM pa) a b inp eq_refl Hi HC Hin Hn).
+      + rewrite <- Hm. exact (exec_instr C lab m pos nxt (LDBM pa) a b inp eq_refl Hi HC Hin Hn).
   Qed.
 
-  Lemma lands_ldm r x a n off : addr x = Some a -> in_mem a = true -> rd m0 a = n mod W -> lands r [ldm r a] n off.
+  Lemma lands_var r x l w off : venv x = Some l ->
+    match l with LGlobal a => rd mr a = w | LFrame k => rd mr (sp + k) = w end ->
+    lands r (gen_var r l) w off.
   Proof.
-    intros Hx Hin Hrd m pos nxt a0 b inp HC Hc Hn. cbn [code_at] in Hc. destruct Hc as (mid & Hi & <-).
-    assert (Ha0 : 0 <= a) by (unfold in_mem in Hin; apply andb_prop in Hin; destruct Hin as [H _]; apply Z.leb_le in H; exact H).
-    assert (Hm : rd m a = n mod W) by (rewrite (HC a Ha0 (Hglobals_not_temps x a Hx)); exact Hrd).
-    destruct r; cbn [ldm] in *.
-    - exists b, m. split; [|apply keeps_refl]. rewrite <- Hm. exact (exec_instr C m pos mid (LDAM a) a0 b inp Hi HC Hin Hn).
-    - rewrite <- Hm. exact (exec_instr C m pos mid (LDBM a) a0 b inp Hi HC Hin Hn).
+    intros Hx Hw m pos nxt a b inp HK Hc Hp Hn. pose proof (K_C m HK) as HC.
+    destruct l as [ga|k]; cbn [gen_var] in Hc.
+    - destruct (Hglob x ga Hx) as [Hin HnT].
+      assert (Hm : rd m ga = w) by (rewrite (HK ga (proj1 (in_mem_range ga Hin)) HnT); exact Hw).
+      one_instr Hc mid Hi. subst mid.
+      destruct r; cbn [ldm] in Hi.
+      + exists b, m. split; [|apply keeps_refl]. rewrite <- Hm.
+        exact (exec_instr C lab m pos nxt (LDAM ga) a b inp eq_refl Hi HC Hin Hn).
+      + rewrite <- Hm. exact (exec_instr C lab m pos nxt (LDBM ga) a b inp eq_refl Hi HC Hin Hn).
+    - destruct (Hframe x k Hx) as [Hin HnT].
+      assert (Hm : rd m (sp + k) = w) by (rewrite (HK (sp + k) (proj1 (in_mem_range _ Hin)) HnT); exact Hw).
+      destruct r.
+      + one_instr Hc p1 Hi1. one_instr Hc p2 Hi2. subst p2.
+        assert (B1 : p1 < W) by (apply instr_at_le in Hi2; lia).
+        pose proof (exec_instr C lab m pos p1 (LDAM 1) a b inp eq_refl Hi1 HC eq_refl B1) as T1.
+        cbn [sem fst snd] in T1. rewrite (K_sp m HK) in T1.
+        assert (R2 : readable (LDAI k) sp b) by (cbn [readable]; rewrite (in_mem_wrap _ Hin); exact Hin).
+        pose proof (exec_instr C lab m p1 nxt (LDAI k) sp b inp eq_refl Hi2 HC R2 Hn) as T2.
+        cbn [sem fst snd] in T2. rewrite (in_mem_wrap _ Hin), Hm in T2.
+        exists b, m. split; [eapply taus_trans; eassumption | apply keeps_refl].
+      + one_instr Hc p1 Hi1. one_instr Hc p2 Hi2. subst p2.
+        assert (B1 : p1 < W) by (apply instr_at_le in Hi2; lia).
+        pose proof (exec_instr C lab m pos p1 (LDBM 1) a b inp eq_refl Hi1 HC eq_refl B1) as T1.
+        cbn [sem fst snd] in T1. rewrite (K_sp m HK) in T1.
+        assert (R2 : readable (LDBI k) a sp) by (cbn [readable]; rewrite (in_mem_wrap _ Hin); exact Hin).
+        pose proof (exec_instr C lab m p1 nxt (LDBI k) a sp inp eq_refl Hi2 HC R2 Hn) as T2.
+        cbn [sem fst snd] in T2. rewrite (in_mem_wrap _ Hin), Hm in T2.
+        eapply taus_trans; eassumption.
   Qed.
 
+  (* the operator after its operands *)
+  Definition opw (opi : instr) (x y : Z) : Z := match opi with ADD => wrap (x + y) | _ => wrap (x - y) end.
+
+  Lemma lands_arith_simple opi cl cr x y off :
+    opi = ADD \/ opi = SUB -> off0 <= off ->
+    lands RA cl x off -> lands RB cr y off -> lands RA (cl ++ cr ++ [opi]) (opw opi x y) off.
+  Proof.
+    intros Hop Hoff Ll Lr m pos nxt a0 b0 inp HK Hc Hp Hn.
+    apply code_at_app in Hc. destruct Hc as (mid1 & Hc1 & Hc).
+    apply code_at_app in Hc. destruct Hc as (mid2 & Hc2 & Hc3).
+    one_instr Hc3 mid3 Hi. subst mid3.
+    pose proof (code_at_le C lab _ _ _ Hc1) as Hle1. pose proof (code_at_le C lab _ _ _ Hc2) as Hle2.
+    assert (Hm2 : mid2 < W) by (apply instr_at_le in Hi; destruct Hop as [-> | ->]; cbn [instr_at] in Hi; lia).
+    destruct (Ll m pos mid1 a0 b0 inp HK Hc1 Hp ltac:(lia)) as (b1 & m1 & T1 & K1).
+    assert (HK1 : K m1) by exact (K_keeps off m m1 Hoff HK K1).
+    pose proof (Lr m1 mid1 mid2 x b1 inp HK1 Hc2 ltac:(lia) Hm2) as T2.
+    exists y, m1. split; [|exact K1].
+    eapply taus_trans; [exact T1|]. eapply taus_trans; [exact T2|].
+    destruct Hop as [-> | ->].
+    - exact (exec_instr C lab m1 mid2 nxt ADD x y inp eq_refl Hi (K_C m1 HK1) I Hn).
+    - exact (exec_instr C lab m1 mid2 nxt SUB x y inp eq_refl Hi (K_C m1 HK1) I Hn).
+  Qed.
+
+  Lemma lands_arith_spill opi cl cr x y off :
+    opi = ADD \/ opi = SUB -> off0 <= off < nslots ->
+    lands RA cr y off -> lands RA cl x (off + 1) ->
+    lands RA (cr ++ [LDBM 1; STAI (size - 1 - off)] ++ cl ++ [LDBM 1; LDBI (size - 1 - off)] ++ [opi]) (opw opi x y) off.
+  Proof.
+    intros Hop Hoff Lr Ll m pos nxt a0 b0 inp HK Hc Hp Hn.
+    set (slot := fb - off).
+    assert (Hslot : T slot) by (unfold T, slot, tlo in *; lia).
+    assert (Hk : sp + (size - 1 - off) = slot) by (unfold slot, fb; lia).
+    pose proof (in_mem_temp slot Hslot) as Hsin.
+    apply code_at_app in Hc. destruct Hc as (p1 & Hc1 & Hc).
+    cbn [app] in Hc. one_instr Hc p2 Hi2. one_instr Hc p3 Hi3.
+    apply code_at_app in Hc. destruct Hc as (p4 & Hc4 & Hc).
+    cbn [app] in Hc. one_instr Hc p5 Hi5. one_instr Hc p6 Hi6. one_instr Hc p7 Hi7. subst p7.
+    pose proof (code_at_le C lab _ _ _ Hc1) as L1. pose proof (code_at_le C lab _ _ _ Hc4) as L4.
+    pose proof (instr_at_le _ _ _ _ _ Hi2) as L2. pose proof (instr_at_le _ _ _ _ _ Hi3) as L3.
+    pose proof (instr_at_le _ _ _ _ _ Hi5) as L5. pose proof (instr_at_le _ _ _ _ _ Hi6) as L6.
+    assert (L7 : p6 < nxt) by (destruct Hop as [-> | ->]; cbn [instr_at] in Hi7; lia).
+    (* 1: the right operand *)
+    destruct (Lr m pos p1 a0 b0 inp HK Hc1 Hp ltac:(lia)) as (b1 & m1 & T1 & K1).
+    assert (HK1 : K m1) by exact (K_keeps off m m1 (proj1 Hoff) HK K1).
+    (* 2: LDBM 1; STAI *)
+    pose proof (exec_instr C lab m1 p1 p2 (LDBM 1) y b1 inp eq_refl Hi2 (K_C _ HK1) eq_refl ltac:(lia)) as T2.
+    cbn [sem fst snd] in T2. rewrite (K_sp m1 HK1) in T2.
+    assert (R3 : readable (STAI (size - 1 - off)) y sp) by (cbn [readable]; rewrite Hk, (in_mem_wrap _ Hsin); exact Hsin).
+    pose proof (exec_instr C lab m1 p2 p3 (STAI (size - 1 - off)) y sp inp eq_refl Hi3 (K_C _ HK1) R3 ltac:(lia)) as T3.
+    cbn [sem fst snd] in T3. rewrite Hk, (in_mem_wrap _ Hsin) in T3.
+    set (m2 := wr m1 slot y) in *.
+    assert (K2 : keeps off m m2).
+    { eapply keeps_trans; [exact K1|]. apply keeps_wr. unfold T, slot in *. lia. }
+    assert (HK2 : K m2) by exact (K_keeps off m m2 (proj1 Hoff) HK K2).
+    (* 3: the left operand, one frame offset higher *)
+    destruct (Ll m2 p3 p4 y sp inp HK2 Hc4 ltac:(lia) ltac:(lia)) as (b4 & m3 & T4 & K4).
+    assert (K3 : keeps off m m3).
+    { eapply keeps_trans; [exact K2|]. eapply keeps_weaken; [|exact K4]. lia. }
+    assert (HK3 : K m3) by exact (K_keeps off m m3 (proj1 Hoff) HK K3).
+    assert (Hsaved : rd m3 slot = y).
+    { rewrite (K4 slot). - unfold m2. apply rd_wr_same. - unfold T, slot, tlo in *. lia. - unfold slot. lia. }
+    (* 4: LDBM 1; LDBI; operator *)
+    pose proof (exec_instr C lab m3 p4 p5 (LDBM 1) x b4 inp eq_refl Hi5 (K_C _ HK3) eq_refl ltac:(lia)) as T5.
+    cbn [sem fst snd] in T5. rewrite (K_sp m3 HK3) in T5.
+    assert (R6 : readable (LDBI (size - 1 - off)) x sp) by (cbn [readable]; rewrite Hk, (in_mem_wrap _ Hsin); exact Hsin).
+    pose proof (exec_instr C lab m3 p5 p6 (LDBI (size - 1 - off)) x sp inp eq_refl Hi6 (K_C _ HK3) R6 ltac:(lia)) as T6.
+    cbn [sem fst snd] in T6. rewrite Hk, (in_mem_wrap _ Hsin), Hsaved in T6.
+    exists y, m3. split; [|exact K3].
+    eapply taus_trans; [exact T1|]. eapply taus_trans; [exact T2|]. eapply taus_trans; [exact T3|].
+    eapply taus_trans; [exact T4|]. eapply taus_trans; [exact T5|]. eapply taus_trans; [exact T6|].
+    destruct Hop as [-> | ->].
+    - exact (exec_instr C lab m3 p6 nxt ADD x y inp eq_refl Hi7 (K_C _ HK3) I Hn).
+    - exact (exec_instr C lab m3 p6 nxt SUB x y inp eq_refl Hi7 (K_C _ HK3) I Hn).
+  Qed.
+
+  (* br true; LDAC 0; BR end; true: LDAC 1; end:   leaves 1 when the branch is taken, 0 otherwise *)
+  Lemma run_bool_tail (br : label -> instr) (taken : Z -> bool) n m pos nxt a b inp :
+    (forall l p q a' b', instr_at C lab p q (br l) -> C m -> q < W -> 0 <= lab l < W ->
+        taus inp (mk p a' b' 0 m) (mk (if taken a' then lab l else q) a' b' 0 m)) ->
+    C m -> code_at C lab pos (bool_tail br n) nxt -> 0 <= pos -> nxt < W ->
+    taus inp (mk pos a b 0 m) (mk nxt (if taken a then 1 else 0) b 0 m).
+  Proof.
+    intros Hbr HC Hc Hp Hn. unfold bool_tail in Hc.
+    one_instr Hc p1 Hi1. one_instr Hc p2 Hi2. one_instr Hc p3 Hi3. one_instr Hc p4 Hi4. one_instr Hc p5 Hi5. one_instr Hc p6 Hi6.
+    subst p6. cbn [instr_at] in Hi4, Hi6. destruct Hi4 as [E4 Ln]. destruct Hi6 as [E6 Le]. subst p4 p5.
+    pose proof (instr_at_le _ _ _ _ _ Hi2) as L2. pose proof (instr_at_le _ _ _ _ _ Hi3) as L3.
+    pose proof (instr_at_le _ _ _ _ _ Hi5) as L5.
+    pose proof (instr_at_le _ _ _ _ _ Hi1) as L1.
+    pose proof (Hbr n pos p1 a b Hi1 HC ltac:(lia) ltac:(lia)) as T1.
+    destruct (taken a).
+    - (* to the true label *)
+      eapply taus_trans; [exact T1|]. rewrite Ln.
+      pose proof (exec_instr C lab m p3 nxt (LDAC 1) a b inp eq_refl Hi5 HC I Hn) as T5.
+      cbn [sem fst snd] in T5. change (1 mod W) with 1 in T5. exact T5.
+    - eapply taus_trans; [exact T1|].
+      pose proof (exec_instr C lab m p1 p2 (LDAC 0) a b inp eq_refl Hi2 HC I ltac:(lia)) as T2.
+      cbn [sem fst snd] in T2. change (0 mod W) with 0 in T2.
+      eapply taus_trans; [exact T2|].
+      pose proof (exec_br C lab m p2 p3 (n + 1) 0 b inp Hi3 HC ltac:(lia) ltac:(lia)) as T3. rewrite Le in T3. exact T3.
+  Qed.
+
+  Lemma lands_bool_tail_brz c w n off : off0 <= off -> lands RA c w off ->
+    lands RA (c ++ bool_tail BRZ n) (if w =? 0 then 1 else 0) off.
+  Proof.
+    intros Hoff L m pos nxt a b inp HK Hc Hp Hn.
+    apply code_at_app in Hc. destruct Hc as (mid & Hc1 & Hc2).
+    pose proof (code_at_le C lab _ _ _ Hc1) as L1. pose proof (code_at_le C lab _ _ _ Hc2) as L2.
+    destruct (L m pos mid a b inp HK Hc1 Hp ltac:(lia)) as (b1 & m1 & T1 & K1).
+    assert (HK1 : K m1) by exact (K_keeps off m m1 Hoff HK K1).
+    exists b1, m1. split; [|exact K1]. eapply taus_trans; [exact T1|].
+    apply (run_bool_tail BRZ (fun x => x =? 0) n m1 mid nxt w b1 inp); try assumption; try lia.
+    - intros l p q a' b' Hi HC' Hq Hl. exact (exec_brz C lab m1 p q l a' b' inp Hi HC' Hq Hl).
+    - exact (K_C m1 HK1).
+  Qed.
+
+  Lemma lands_bool_tail_brn c w n off : off0 <= off -> lands RA c w off ->
+    lands RA (c ++ bool_tail BRN n) (if negative w then 1 else 0) off.
+  Proof.
+    intros Hoff L m pos nxt a b inp HK Hc Hp Hn.
+    apply code_at_app in Hc. destruct Hc as (mid & Hc1 & Hc2).
+    pose proof (code_at_le C lab _ _ _ Hc1) as L1. pose proof (code_at_le C lab _ _ _ Hc2) as L2.
+    destruct (L m pos mid a b inp HK Hc1 Hp ltac:(lia)) as (b1 & m1 & T1 & K1).
+    assert (HK1 : K m1) by exact (K_keeps off m m1 Hoff HK K1).
+    exists b1, m1. split; [|exact K1]. eapply taus_trans; [exact T1|].
+    apply (run_bool_tail BRN negative n m1 mid nxt w b1 inp); try assumption; try lia.
+    - intros l p q a' b' Hi HC' Hq Hl. exact (exec_brn C lab m1 p q l a' b' inp Hi HC' Hq Hl).
+    - exact (K_C m1 HK1).
+  Qed.
+
+  (* l and r:   l; BRZ end; r; end:  *)
+  Lemma lands_and cl cr x y n off : off0 <= off -> lands RA cl x off -> (x <> 0 -> lands RA cr y off) ->
+    lands RA (cl ++ [BRZ n] ++ cr ++ [LABEL n]) (if x =? 0 then 0 else y) off.
+  Proof.
+    intros Hoff Ll Lr m pos nxt a b inp HK Hc Hp Hn.
+    apply code_at_app in Hc. destruct Hc as (p1 & Hc1 & Hc). cbn [app] in Hc. one_instr Hc p2 Hi2.
+    apply code_at_app in Hc. destruct Hc as (p3 & Hc3 & Hc). one_instr Hc p4 Hi4. subst p4.
+    cbn [instr_at] in Hi4. destruct Hi4 as [E4 Ln]. subst p3.
+    pose proof (code_at_le C lab _ _ _ Hc1) as L1. pose proof (code_at_le C lab _ _ _ Hc3) as L3.
+    pose proof (instr_at_le _ _ _ _ _ Hi2) as L2.
+    destruct (Ll m pos p1 a b inp HK Hc1 Hp ltac:(lia)) as (b1 & m1 & T1 & K1).
+    assert (HK1 : K m1) by exact (K_keeps off m m1 Hoff HK K1).
+    pose proof (exec_brz C lab m1 p1 p2 n x b1 inp Hi2 (K_C _ HK1) ltac:(lia) ltac:(lia)) as T2.
+    destruct (x =? 0) eqn:Ex.
+    - apply Z.eqb_eq in Ex. subst x. exists b1, m1. split; [|exact K1].
+      eapply taus_trans; [exact T1|]. rewrite Ln in T2. exact T2.
+    - apply Z.eqb_neq in Ex.
+      destruct (Lr Ex m1 p2 nxt x b1 inp HK1 Hc3 ltac:(lia) Hn) as (b2 & m2 & T3 & K2).
+      exists b2, m2. split; [|eapply keeps_trans; eassumption].
+      eapply taus_trans; [exact T1|]. eapply taus_trans; [exact T2|]. exact T3.
+  Qed.
+
+  (* l or r:   l; BRZ false; BR end; false: r; end:  *)
+  Lemma lands_or cl cr x y n off : off0 <= off -> lands RA cl x off -> (x = 0 -> lands RA cr y off) ->
+    lands RA (cl ++ [BRZ n; BR (n + 1); LABEL n] ++ cr ++ [LABEL (n + 1)]) (if x =? 0 then y else x) off.
+  Proof.
+    intros Hoff Ll Lr m pos nxt a b inp HK Hc Hp Hn.
+    apply code_at_app in Hc. destruct Hc as (p1 & Hc1 & Hc). cbn [app] in Hc.
+    one_instr Hc p2 Hi2. one_instr Hc p3 Hi3. one_instr Hc p4 Hi4.
+    apply code_at_app in Hc. destruct Hc as (p5 & Hc5 & Hc). one_instr Hc p6 Hi6. subst p6.
+    cbn [instr_at] in Hi4, Hi6. destruct Hi4 as [E4 Lf]. destruct Hi6 as [E6 Le]. subst p4 p5.
+    pose proof (code_at_le C lab _ _ _ Hc1) as L1. pose proof (code_at_le C lab _ _ _ Hc5) as L5.
+    pose proof (instr_at_le _ _ _ _ _ Hi2) as L2. pose proof (instr_at_le _ _ _ _ _ Hi3) as L3.
+    destruct (Ll m pos p1 a b inp HK Hc1 Hp ltac:(lia)) as (b1 & m1 & T1 & K1).
+    assert (HK1 : K m1) by exact (K_keeps off m m1 Hoff HK K1).
+    pose proof (exec_brz C lab m1 p1 p2 n x b1 inp Hi2 (K_C _ HK1) ltac:(lia) ltac:(lia)) as T2.
+    destruct (x =? 0) eqn:Ex.
+    - apply Z.eqb_eq in Ex.
+      destruct (Lr Ex m1 p3 nxt x b1 inp HK1 Hc5 ltac:(lia) Hn) as (b2 & m2 & T3 & K2).
+      exists b2, m2. split; [|eapply keeps_trans; eassumption].
+      eapply taus_trans; [exact T1|]. rewrite Lf in T2. eapply taus_trans; [exact T2|]. exact T3.
+    - exists b1, m1. split; [|exact K1].
+      eapply taus_trans; [exact T1|]. eapply taus_trans; [exact T2|].
+      pose proof (exec_br C lab m1 p2 p3 (n + 1) x b1 inp Hi3 (K_C _ HK1) ltac:(lia) ltac:(lia)) as T3.
+      rewrite Le in T3. exact T3.
+  Qed.
+
+  (* ---- arithmetic facts about machine words *)
   Lemma wrap_add x y : wrap (x mod W + y mod W) = (x + y) mod W.
   Proof. unfold wrap. rewrite <- Zplus_mod. reflexivity. Qed.
   Lemma wrap_sub x y : wrap (x mod W - y mod W) = (x - y) mod W.
   Proof. unfold wrap. rewrite <- Zminus_mod. reflexivity. Qed.
-
-  Lemma rd_sp m : C m -> rd m 1 = sp.
-  Proof. intros HC. rewrite (HC 1 ltac:(lia) Hsp_not_temp). exact Hsp. Qed.
-
-  Lemma ss_chain st sl sr s :
-    same_store (set_cur st eff0) sl ->
-    same_store (set_cur (set_cur sl (eff_union (cur st) (cur sl))) eff0) sr -> same_store sr s -> same_store st s.
+  Lemma in_int_bounds z : in_int z = true -> -2147483648 <= z <= 2147483647.
+  Proof. unfold in_int, min_int, max_int. intros H. apply andb_prop in H. destruct H as [H1 H2]. apply Z.leb_le in H1. apply Z.leb_le in H2. lia. Qed.
+  Lemma word_zero z : in_int z = true -> (z mod W =? 0) = (z =? 0).
   Proof.
-    intros S1 S2 Hss.
-    eapply same_store_trans; [apply (same_store_set_cur st eff0)|].
-    eapply same_store_trans; [exact S1|].
-    eapply same_store_trans; [apply (same_store_set_cur sl (eff_union (cur st) (cur sl)))|].
-    eapply same_store_trans; [apply (same_store_set_cur _ eff0)|].
-    eapply same_store_trans; [exact S2 | exact Hss].
+    intros H. apply in_int_bounds in H. unfold W.
+    destruct (z =? 0) eqn:E.
+    - apply Z.eqb_eq in E. subst z. reflexivity.
+    - apply Z.eqb_neq in E. apply Z.eqb_neq. intros Hm. apply Z.mod_divide in Hm; [|lia]. destruct Hm as [q Hq]. lia.
+  Qed.
+  Lemma word_negative z : in_int z = true -> negative (z mod W) = (z <? 0).
+  Proof.
+    intros H. apply in_int_bounds in H. unfold negative, W.
+    destruct (z <? 0) eqn:E.
+    - apply Z.ltb_lt in E. apply Z.leb_le. lia.
+    - apply Z.ltb_ge in E. apply Z.leb_gt. lia.
+  Qed.
+  Lemma word_eq x y : in_int x = true -> in_int y = true -> ((x - y) mod W =? 0) = (x =? y).
+  Proof.
+    intros Hx Hy. apply in_int_bounds in Hx. apply in_int_bounds in Hy. unfold W.
+    destruct (x =? y) eqn:E.
+    - apply Z.eqb_eq in E. subst y. rewrite Z.sub_diag. reflexivity.
+    - apply Z.eqb_neq in E. apply Z.eqb_neq. intros Hm. apply Z.mod_divide in Hm; [|lia]. destruct Hm as [q Hq]. lia.
   Qed.
 
-  Theorem cg_correct : forall e r off code, cg addr size nslots e r off = Some code -> 0 <= off ->
-    forall f st v s, eval f ge e st = Ret v s -> env_ok st ->
-    same_store st s /\ exists n, v = Vint n /\ lands r code n off.
+  (* ---- the arithmetic sub-generator, given what the operand generators land *)
+  Lemma arith_correct opi (cgl cgrA cgrB : cgfun) smpl n off code n' x y :
+    opi = ADD \/ opi = SUB -> off0 <= off ->
+    arith_code size nslots opi smpl cgl cgrA cgrB n off = Some (code, n') ->
+    (forall n1 o1 c n2, off0 <= o1 -> cgl n1 o1 = Some (c, n2) -> lands RA c x o1) ->
+    (forall n1 o1 c n2, off0 <= o1 -> cgrA n1 o1 = Some (c, n2) -> lands RA c y o1) ->
+    (forall n1 o1 c n2, off0 <= o1 -> cgrB n1 o1 = Some (c, n2) -> lands RB c y o1) ->
+    lands RA code (opw opi x y) off.
   Proof.
-    induction e as [n|b|bs|x|a i|g args|n args|u e IHe|o l IHl rr IHr]; intros r off code Hcg Hoff f st v s He Henv;
-      cbn [cg] in Hcg.
+    intros Hop Hoff Hc Hl HrA HrB. unfold arith_code in Hc. destruct smpl.
+    - destruct (cgl n off) as [[cl n1]|] eqn:El; [|discriminate]. cbn [obind] in Hc.
+      destruct (cgrB n1 off) as [[cr n2]|] eqn:Er; [|discriminate]. cbn [obind] in Hc. inversion Hc; subst code n'.
+      apply lands_arith_simple; try assumption; [eapply Hl | eapply HrB]; eassumption.
+    - destruct ((0 <=? off) && (off <? nslots)) eqn:Eo; [|discriminate].
+      apply andb_prop in Eo. destruct Eo as [_ Eo]. apply Z.ltb_lt in Eo.
+      destruct (cgrA n off) as [[cr n1]|] eqn:Er; [|discriminate]. cbn [obind] in Hc.
+      destruct (cgl n1 (off + 1)) as [[cl n2]|] eqn:El; [|discriminate]. cbn [obind] in Hc. inversion Hc; subst code n'.
+      apply lands_arith_spill; try assumption; try lia; [eapply HrA | eapply Hl]; try eassumption; lia.
+  Qed.
+
+  (* ---- expressions of the fragment do not change the store *)
+  Fixpoint pure (e : expr) : bool :=
+    match e with
+    | ENum _ => true | EBool _ => true | EVar _ => true
+    | EUn _ a => pure a
+    | EBin _ l r => pure l && pure r
+    | _ => false
+    end.
+
+  Lemma eval_pure : forall e, pure e = true -> forall f st v s, eval f ge e st = Ret v s -> same_store st s.
+  Proof.
+    induction e as [n0|b0|bs|x|a i|g args|n0 args|u e IHe|o l IHl rr IHr]; intros Hp f st v s He; cbn [pure] in Hp; try discriminate.
+    - destruct (eval_num _ _ _ _ _ _ He) as [_ ->]. apply same_store_refl.
+    - destruct (eval_bool _ _ _ _ _ _ He) as [_ ->]. apply same_store_refl.
+    - apply eval_var in He. unfold read_var in He.
+      destruct (assoc x (f_vars (top st))) as [[| | |]|]; try discriminate; try (inversion He; apply same_store_refl).
+      destruct (assoc x (f_vals (top st))); [inversion He; apply same_store_refl|].
+      destruct (assoc x (g_vals ge)); [inversion He; apply same_store_refl|].
+      destruct (assoc x (gvars st)) as [[| | |]|]; try discriminate; try (inversion He; apply same_store_note_rd).
+      destruct (assoc x (garrs st)); [inversion He; apply same_store_refl | discriminate].
+    - destruct u.
+      + destruct f as [|f0]; [discriminate|]. cbn [eval eval_body] in He.
+        apply bind_ret in He. destruct He as (va & s1 & H1 & H).
+        destruct va; try discriminate. cbn [int_of] in H. destruct (in_int (0 - n)); [|discriminate]. inversion H; subst.
+        eapply IHe; eassumption.
+      + destruct (eval_not _ _ _ _ _ _ He) as (f1 & t & H1 & _). eapply IHe; eassumption.
+    - apply andb_prop in Hp. destruct Hp as [Hpl Hpr].
+      destruct (logical o) eqn:Lo.
+      + destruct o; try discriminate.
+        * destruct (eval_or _ _ _ _ _ _ _ He) as (f1 & t & s1 & H1 & [(_ & _ & ->)|(_ & u & H2 & _)]).
+          -- eapply IHl; eassumption.
+          -- eapply same_store_trans; [eapply IHl | eapply IHr]; eassumption.
+        * destruct (eval_and _ _ _ _ _ _ _ He) as (f1 & t & s1 & H1 & [(_ & _ & ->)|(_ & u & H2 & _)]).
+          -- eapply IHl; eassumption.
+          -- eapply same_store_trans; [eapply IHl | eapply IHr]; eassumption.
+      + destruct (eval_binop _ _ o l rr st v s Lo He) as (f1 & f2 & x & y & st1 & sl & st2 & sr & z & S0 & E1 & S1 & E2 & S2 & _).
+        eapply same_store_trans; [exact S0|]. eapply same_store_trans; [eapply IHl; eassumption|].
+        eapply same_store_trans; [exact S1|]. eapply same_store_trans; [eapply IHr; eassumption | exact S2].
+  Qed.
+
+  Lemma cg_pure : forall e r n off res, cg venv pool size nslots e r n off = Some res -> pure e = true.
+  Proof.
+    induction e as [n0|b0|bs|x|a i|g args|n0 args|u e IHe|o l IHl rr IHr]; intros r n off res Hcg; cbn [cg] in Hcg; try discriminate; try reflexivity.
+    - destruct u; [discriminate|]. destruct r; [|discriminate].
+      destruct (cg venv pool size nslots e RA (n + 2) off) as [p|] eqn:Ec; [|discriminate]. cbn [pure]. eapply IHe; exact Ec.
+    - destruct r; [|discriminate]. cbn [pure].
+      assert (Har : forall opi n0 res0, arith_code size nslots opi (simple rr) (cg venv pool size nslots l RA) (cg venv pool size nslots rr RA)
+                           (cg venv pool size nslots rr RB) n0 off = Some res0 -> pure l && pure rr = true).
+      { intros opi n0 res0 Hc. unfold arith_code in Hc. destruct (simple rr).
+        - destruct (cg venv pool size nslots l RA n0 off) as [[cl n1]|] eqn:El; [|discriminate]. cbn [obind] in Hc.
+          destruct (cg venv pool size nslots rr RB n1 off) as [p|] eqn:Er; [|discriminate].
+          rewrite (IHl _ _ _ _ El), (IHr _ _ _ _ Er). reflexivity.
+        - destruct ((0 <=? off) && (off <? nslots)); [|discriminate].
+          destruct (cg venv pool size nslots rr RA n0 off) as [[cr n1]|] eqn:Er; [|discriminate]. cbn [obind] in Hc.
+          destruct (cg venv pool size nslots l RA n1 (off + 1)) as [p|] eqn:El; [|discriminate].
+          rewrite (IHl _ _ _ _ El), (IHr _ _ _ _ Er). reflexivity. }
+      assert (Hz : forall e0, is_zero e0 = true -> pure e0 = true).
+      { intros e0. unfold is_zero, lit_of. destruct e0; try discriminate; reflexivity. }
+      destruct o; try discriminate.
+      + eapply Har; exact Hcg.
+      + eapply Har; exact Hcg.
+      + destruct (cg venv pool size nslots l RA (n + 2) off) as [[cl n1]|] eqn:El; [|discriminate]. cbn [obind] in Hcg.
+        destruct (cg venv pool size nslots rr RA n1 off) as [p|] eqn:Er; [|discriminate].
+        rewrite (IHl _ _ _ _ El), (IHr _ _ _ _ Er). reflexivity.
+      + destruct (cg venv pool size nslots l RA (n + 1) off) as [[cl n1]|] eqn:El; [|discriminate]. cbn [obind] in Hcg.
+        destruct (cg venv pool size nslots rr RA n1 off) as [p|] eqn:Er; [|discriminate].
+        rewrite (IHl _ _ _ _ El), (IHr _ _ _ _ Er). reflexivity.
+      + destruct (is_zero l) eqn:Zl.
+        * destruct (cg venv pool size nslots rr RA n off) as [p|] eqn:Er; [|discriminate].
+          rewrite (Hz l Zl), (IHr _ _ _ _ Er). reflexivity.
+        * destruct (is_zero rr) eqn:Zr.
+          -- destruct (cg venv pool size nslots l RA n off) as [p|] eqn:El; [|discriminate].
+             rewrite (Hz rr Zr), (IHl _ _ _ _ El). reflexivity.
+          -- destruct (arith_code size nslots SUB (simple rr) (cg venv pool size nslots l RA) (cg venv pool size nslots rr RA)
+                                  (cg venv pool size nslots rr RB) n off) as [p|] eqn:Ea; [|discriminate].
+             eapply Har; exact Ea.
+      + destruct (is_zero rr) eqn:Zr.
+        * destruct (cg venv pool size nslots l RA n off) as [p|] eqn:El; [|discriminate].
+          rewrite (Hz rr Zr), (IHl _ _ _ _ El). reflexivity.
+        * destruct (arith_code size nslots SUB (simple rr) (cg venv pool size nslots l RA) (cg venv pool size nslots rr RA)
+                               (cg venv pool size nslots rr RB) n off) as [p|] eqn:Ea; [|discriminate].
+          eapply Har; exact Ea.
+  Qed.
+
+  Lemma lit_eval e c f st v s : lit_of e = Some c -> eval f ge e st = Ret v s -> v = Vint c.
+  Proof.
+    destruct e; cbn [lit_of]; try discriminate; intros Hc He; inversion Hc; subst c.
+    - exact (proj1 (eval_num _ _ _ _ _ _ He)).
+    - exact (proj1 (eval_bool _ _ _ _ _ _ He)).
+  Qed.
+  Lemma is_zero_eval e f st x s : is_zero e = true -> eval f ge e st = Ret (Vint x) s -> x = 0.
+  Proof.
+    unfold is_zero. destruct (lit_of e) as [c|] eqn:El; [|discriminate]. intros Hc He. apply Z.eqb_eq in Hc. subst c.
+    pose proof (lit_eval e 0 f st _ s El He) as H. inversion H. reflexivity.
+  Qed.
+
+  (* ---- the main theorem *)
+  Theorem cg_correct : forall e r n off code n', cg venv pool size nslots e r n off = Some (code, n') -> off0 <= off ->
+    forall f st v s, eval f ge e st = Ret v s -> vars_ok st ->
+    exists z, v = Vint z /\ in_int z = true /\ lands r code (z mod W) off.
+  Proof.
+    induction e as [n0|b0|bs|x|a i|g args|n0 args|u e IHe|o l IHl rr IHr]; intros r n off code n' Hcg Hoff f st v s He Hv;
+      pose proof (cg_pure _ _ _ _ _ Hcg) as Hpure; cbn [cg] in Hcg; try discriminate.
     - (* number *)
-      cbn [const_of] in Hcg. destruct (small (signed32 n)); [|discriminate]. inversion Hcg; subst code.
-      destruct (const_eval (ENum n) (signed32 n) eq_refl f st v s He) as [-> Hss].
-      split; [exact Hss|]. exists (signed32 n). split; [reflexivity | apply lands_ldc].
-    - cbn [const_of] in Hcg. discriminate.
-    - cbn [const_of] in Hcg. discriminate.
-    - (* global variable *)
-      cbn [const_of] in Hcg. destruct (addr x) as [a|] eqn:Hx; [|discriminate]. inversion Hcg; subst code.
-      destruct (var_eval x a f st v s Hx Henv He) as (n & -> & Hrd & Hin & Hss).
-      split; [exact Hss|]. exists n. split; [reflexivity | eapply lands_ldm; eassumption].
-    - cbn [const_of] in Hcg. discriminate.
-    - cbn [const_of] in Hcg. discriminate.
-    - cbn [const_of] in Hcg. discriminate.
-    - cbn [const_of] in Hcg. discriminate.
-    - (* binary operator *)
-      destruct (const_of (EBin o l rr)) as [c|] eqn:Ec.
-      + (* folded by the compiler *)
-        destruct (small c); [|discriminate]. inversion Hcg; subst code.
-        destruct (const_eval (EBin o l rr) c Ec f st v s He) as [-> Hss].
-        split; [exact Hss|]. exists c. split; [reflexivity | apply lands_ldc].
-      + assert (Ho : (o = Plus \/ o = Minus) /\ r = RA).
-        { destruct o; try discriminate; destruct r; try discriminate; auto. }
-        destruct Ho as [Ho ->].
-        set (opi := match o with Plus => ADD | _ => SUB end) in *.
-        assert (Hcg' :
-          (if simple_right rr then
-             match cg addr size nslots l RA off, cg addr size nslots rr RB off with
-             | Some cl, Some cr => Some (cl ++ cr ++ [opi])
-             | _, _ => None
-             end
-           else if (0 <=? off) && (off <? nslots) then
-             match cg addr size nslots rr RA off, cg addr size nslots l RA (off + 1) with
-             | Some cr, Some cl => Some (cr ++ [LDBM 1; STAI (size - 1 - off)] ++ cl ++ [LDBM 1; LDBI (size - 1 - off)] ++ [opi])
-             | _, _ => None
-             end
-           else None) = Some code) by (destruct Ho as [-> | ->]; exact Hcg).
-        clear Hcg.
-        destruct (eval_arith f ge o l rr st v s Ho He) as (f1 & f2 & x & y & sl & sr & z & H1 & H2 & Hb & -> & Hss).
-        assert (E0 : env_ok (set_cur st eff0)) by (eapply env_ok_same; [apply same_store_set_cur | exact Henv]).
-        assert (Hz : z mod W = match o with Plus => wrap (x mod W + y mod W) | _ => wrap (x mod W - y mod W) end).
-        { destruct Ho as [-> | ->]; cbn [binop_ans] in Hb.
-          - destruct (in_int (x + y)); [|discriminate]. inversion Hb; subst z. symmetry. apply wrap_add.
-          - destruct (in_int (x - y)); [|discriminate]. inversion Hb; subst z. symmetry. apply wrap_sub. }
-        destruct (simple_right rr).
-        * (* right operand straight into breg *)
-          destruct (cg addr size nslots l RA off) as [cl|] eqn:Ecl; [|discriminate].
-          destruct (cg addr size nslots rr RB off) as [cr|] eqn:Ecr; [|discriminate].
-          inversion Hcg'; subst code; clear Hcg'.
-          destruct (IHl RA off cl Ecl Hoff f1 _ _ _ H1 E0) as [S1 (x' & Hx' & Ll)]. inversion Hx'; subst x'.
-          assert (E1 : env_ok (set_cur (set_cur sl (eff_union (cur st) (cur sl))) eff0)).
-          { eapply env_ok_same; [|exact E0].
-            eapply same_store_trans; [exact S1|].
-            eapply same_store_trans; [apply (same_store_set_cur sl (eff_union (cur st) (cur sl)))|].
-            apply same_store_set_cur. }
-          destruct (IHr RB off cr Ecr Hoff f2 _ _ _ H2 E1) as [S2 (y' & Hy' & Lr)]. inversion Hy'; subst y'.
-          split; [exact (ss_chain st sl sr s S1 S2 Hss)|].
-          exists z. split; [reflexivity|].
-          intros m pos nxt a0 b0 inp HC Hc Hn.
-          destruct (code_at_app C cl _ pos nxt Hc) as (mid1 & Hc1 & Hc23).
-          destruct (code_at_app C cr _ mid1 nxt Hc23) as (mid2 & Hc2 & Hc3).
-          cbn [code_at] in Hc3. destruct Hc3 as (mid3 & Hi & <-).
-          pose proof (code_at_le C _ _ _ Hc2) as Hle2.
-          assert (Hm2 : mid2 < W) by (destruct Hi as [[_ Hlt] _]; lia).
-          assert (Hm1 : mid1 < W) by lia.
-          destruct (Ll m pos mid1 a0 b0 inp HC Hc1 Hm1) as (b1 & m1 & T1 & K1).
-          assert (HC1 : C m1) by exact (keeps_C off m m1 Hoff HC K1).
-          pose proof (Lr m1 mid1 mid2 (x mod W) b1 inp HC1 Hc2 Hm2) as T2.
-          exists (y mod W), m1. split; [|exact K1].
-          eapply taus_trans; [exact T1|]. eapply taus_trans; [exact T2|].
-          rewrite Hz. unfold opi in Hi.
-          destruct Ho as [-> | ->].
-          -- exact (exec_instr C m1 mid2 mid3 ADD (x mod W) (y mod W) inp Hi HC1 I Hn).
-          -- exact (exec_instr C m1 mid2 mid3 SUB (x mod W) (y mod W) inp Hi HC1 I Hn).
-        * (* right operand spilled to the frame *)
-          destruct ((0 <=? off) && (off <? nslots)) eqn:Eoff; [|discriminate].
-          apply andb_prop in Eoff. destruct Eoff as [_ Eoff]. apply Z.ltb_lt in Eoff.
-          destruct (cg addr size nslots rr RA off) as [cr|] eqn:Ecr; [|discriminate].
-          destruct (cg addr size nslots l RA (off + 1)) as [cl|] eqn:Ecl; [|discriminate].
-          inversion Hcg'; subst code; clear Hcg'.
-          destruct (IHl RA (off + 1) cl Ecl ltac:(lia) f1 _ _ _ H1 E0) as [S1 (x' & Hx' & Ll)]. inversion Hx'; subst x'.
-          assert (E1 : env_ok (set_cur (set_cur sl (eff_union (cur st) (cur sl))) eff0)).
-          { eapply env_ok_same; [|exact E0].
-            eapply same_store_trans; [exact S1|].
-            eapply same_store_trans; [apply (same_store_set_cur sl (eff_union (cur st) (cur sl)))|].
-            apply same_store_set_cur. }
-          destruct (IHr RA off cr Ecr Hoff f2 _ _ _ H2 E1) as [S2 (y' & Hy' & Lr)]. inversion Hy'; subst y'.
-          split; [exact (ss_chain st sl sr s S1 S2 Hss)|].
-          exists z. split; [reflexivity|].
-          intros m pos nxt a0 b0 inp HC Hc Hn.
-          (* the slot of frame offset off *)
-          set (slot := thi - off).
-          assert (Hslot : T slot) by (unfold T, slot, tlo, thi in *; lia).
-          assert (Hk : sp + (size - 1 - off) = slot) by (unfold slot, thi; lia).
-          destruct (code_at_app C cr _ pos nxt Hc) as (p1 & Hc1 & Hc').
-          cbn [app code_at] in Hc'. destruct Hc' as (p2 & Hi2 & p3 & Hi3 & Hc'').
-          destruct (code_at_app C cl _ p3 nxt Hc'') as (p4 & Hc4 & Hc''').
-          cbn [app code_at] in Hc'''. destruct Hc''' as (p5 & Hi5 & p6 & Hi6 & p7 & Hi7 & <-).
-          pose proof (code_at_le C _ _ _ Hc4) as Hle4.
-          assert (B6 : p6 < W) by (destruct Hi7 as [[_ H] _]; lia).
-          assert (B5 : p5 < W) by (destruct Hi6 as [[_ H] _]; lia).
-          assert (B4 : p4 < W) by (destruct Hi5 as [[_ H] _]; lia).
-          assert (B3 : p3 < W) by lia.
-          assert (B2 : p2 < W) by (destruct Hi3 as [[_ H] _]; lia).
-          assert (B1 : p1 < W) by (destruct Hi2 as [[_ H] _]; lia).
-          (* 1: the right operand *)
-          destruct (Lr m pos p1 a0 b0 inp HC Hc1 B1) as (b1 & m1 & T1 & K1).
-          assert (HC1 : C m1) by exact (keeps_C off m m1 Hoff HC K1).
-          (* 2: LDBM 1 *)
-          pose proof (exec_instr C m1 p1 p2 (LDBM 1) (y mod W) b1 inp Hi2 HC1 eq_refl B2) as T2.
-          cbn [sem fst snd] in T2. rewrite (rd_sp m1 HC1) in T2.
-          (* 3: STAI *)
-          assert (R3 : readable (STAI (size - 1 - off)) sp).
-          { cbn [readable]. rewrite Hk, (wrap_temp slot Hslot). apply in_mem_temp. exact Hslot. }
-          pose proof (exec_instr C m1 p2 p3 (STAI (size - 1 - off)) (y mod W) sp inp Hi3 HC1 R3 B3) as T3.
-          cbn [sem fst snd] in T3. rewrite Hk, (wrap_temp slot Hslot) in T3.
-          set (m2 := wr m1 slot (y mod W)) in *.
-          assert (K2 : keeps off m m2).
-          { eapply keeps_trans; [exact K1|]. apply keeps_wr. unfold T, slot in *. lia. }
-          assert (HC2 : C m2) by exact (keeps_C off m m2 Hoff HC K2).
-          (* 4: the left operand, one frame offset higher *)
-          destruct (Ll m2 p3 p4 (y mod W) sp inp HC2 Hc4 B4) as (b4 & m3 & T4 & K4).
-          assert (K3 : keeps off m m3).
-          { eapply keeps_trans; [exact K2|]. eapply keeps_weaken; [|exact K4]. lia. }
-          assert (HC3 : C m3) by exact (keeps_C off m m3 Hoff HC K3).
-          assert (Hsaved : rd m3 slot = y mod W).
-          { rewrite (K4 slot). - unfold m2. apply rd_wr_same. - unfold T, slot, tlo in *. lia. - unfold slot. lia. }
-          (* 5: LDBM 1; LDBI *)
-          pose proof (exec_instr C m3 p4 p5 (LDBM 1) (x mod W) b4 inp Hi5 HC3 eq_refl B5) as T5.
-          cbn [sem fst snd] in T5. rewrite (rd_sp m3 HC3) in T5.
-          assert (R6 : readable (LDBI (size - 1 - off)) sp).
-          { cbn [readable]. rewrite Hk, (wrap_temp slot Hslot). apply in_mem_temp. exact Hslot. }
-          pose proof (exec_instr C m3 p5 p6 (LDBI (size - 1 - off)) (x mod W) sp inp Hi6 HC3 R6 B6) as T6.
-          cbn [sem fst snd] in T6. rewrite Hk, (wrap_temp slot Hslot), Hsaved in T6.
-          (* 6: the operator *)
-          exists (y mod W), m3. split; [|exact K3].
-          eapply taus_trans; [exact T1|]. eapply taus_trans; [exact T2|]. eapply taus_trans; [exact T3|].
-          eapply taus_trans; [exact T4|]. eapply taus_trans; [exact T5|]. eapply taus_trans; [exact T6|].
-          rewrite Hz. unfold opi in Hi7.
-          destruct Ho as [-> | ->].
-          -- exact (exec_instr C m3 p6 p7 ADD (x mod W) (y mod W) inp Hi7 HC3 I Hn).
-          -- exact (exec_instr C m3 p6 p7 SUB (x mod W) (y mod W) inp Hi7 HC3 I Hn).
+      cbn [lit_of obind] in Hcg. destruct (gen_const pool r (signed32 n0)) as [c|] eqn:Eg; [|discriminate]. cbn [obind] in Hcg.
+      inversion Hcg; subst code n'. destruct (eval_num _ _ _ _ _ _ He) as [-> ->].
+      exists (signed32 n0). repeat split; [apply signed32_range | eapply lands_const; exact Eg].
+    - (* boolean *)
+      cbn [lit_of obind] in Hcg. destruct (gen_const pool r (of_bool b0)) as [c|] eqn:Eg; [|discriminate]. cbn [obind] in Hcg.
+      inversion Hcg; subst code n'. destruct (eval_bool _ _ _ _ _ _ He) as [-> ->].
+      exists (of_bool b0). repeat split; [apply of_bool_range | eapply lands_const; exact Eg].
+    - (* variable *)
+      destruct (venv x) as [l|] eqn:Ex; [|discriminate]. cbn [obind] in Hcg. inversion Hcg; subst code n'.
+      apply eval_var in He. unfold read_var in He. destruct Hv as [Hg Hf].
+      destruct l as [ga|k].
+      + destruct (Hg x ga Ex) as (H1 & H2 & H3 & w & H5 & H6). rewrite H1, H2, H3, H5 in He.
+        destruct H6 as [->|(z & -> & Hz & Hw)]; [discriminate|]. inversion He; subst v s.
+        exists z. repeat split; [exact Hz|]. eapply lands_var; [exact Ex | exact Hw].
+      + destruct (Hf x k Ex) as (w & H5 & H6). rewrite H5 in He.
+        destruct H6 as [->|(z & -> & Hz & Hw)]; [discriminate|]. inversion He; subst v s.
+        exists z. repeat split; [exact Hz|]. eapply lands_var; [exact Ex | exact Hw].
+    - (* not *)
+      destruct u; [discriminate|]. destruct r; [|discriminate].
+      destruct (cg venv pool size nslots e RA (n + 2) off) as [[c n1]|] eqn:Ec; [|discriminate]. cbn [obind] in Hcg.
+      inversion Hcg; subst code n'.
+      destruct (eval_not _ _ _ _ _ _ He) as (f1 & t & He1 & ->).
+      destruct (IHe RA (n + 2) off c n1 Ec Hoff f1 st _ s He1 Hv) as (z & Hz & Hzr & L). inversion Hz; subst z.
+      exists (of_bool (negb t)). repeat split; [apply of_bool_range|].
+      pose proof (lands_bool_tail_brz c _ n off Hoff L) as L2.
+      replace (of_bool (negb t) mod W) with (if of_bool t mod W =? 0 then 1 else 0); [exact L2|].
+      destruct t; reflexivity.
+    - (* binary operators *)
+      destruct r; [|discriminate]. cbn [pure] in Hpure. apply andb_prop in Hpure. destruct Hpure as [Hpl Hpr].
+      destruct (logical o) eqn:Lo.
+      { (* short-circuit operators *)
+        destruct o; try discriminate.
+        - (* or *)
+          destruct (cg venv pool size nslots l RA (n + 2) off) as [[cl n1]|] eqn:El; [|discriminate]. cbn [obind] in Hcg.
+          destruct (cg venv pool size nslots rr RA n1 off) as [[cr n2]|] eqn:Er; [|discriminate]. cbn [obind] in Hcg.
+          inversion Hcg; subst code n'.
+          destruct (eval_or _ _ _ _ _ _ _ He) as (f1 & t & s1 & H1 & Hcase).
+          destruct (IHl RA _ off cl n1 El Hoff f1 st _ s1 H1 Hv) as (z & Hz & _ & Ll). inversion Hz; subst z.
+          pose proof (vars_ok_same _ _ (eval_pure l Hpl _ _ _ _ H1) Hv) as Hv1.
+          destruct Hcase as [(-> & -> & ->)|(-> & u & H2 & ->)].
+          + exists 1. repeat split.
+            pose proof (lands_or cl cr (of_bool true mod W) 0 n off Hoff Ll) as L. cbn in L. apply L. intros H; discriminate.
+          + destruct (IHr RA _ off cr n2 Er Hoff f1 s1 _ s H2 Hv1) as (z & Hz2 & _ & Lr). inversion Hz2; subst z.
+            exists (of_bool u). repeat split; [apply of_bool_range|].
+            pose proof (lands_or cl cr (of_bool false mod W) (of_bool u mod W) n off Hoff Ll (fun _ => Lr)) as L. exact L.
+        - (* and *)
+          destruct (cg venv pool size nslots l RA (n + 1) off) as [[cl n1]|] eqn:El; [|discriminate]. cbn [obind] in Hcg.
+          destruct (cg venv pool size nslots rr RA n1 off) as [[cr n2]|] eqn:Er; [|discriminate]. cbn [obind] in Hcg.
+          inversion Hcg; subst code n'.
+          destruct (eval_and _ _ _ _ _ _ _ He) as (f1 & t & s1 & H1 & Hcase).
+          destruct (IHl RA _ off cl n1 El Hoff f1 st _ s1 H1 Hv) as (z & Hz & _ & Ll). inversion Hz; subst z.
+          pose proof (vars_ok_same _ _ (eval_pure l Hpl _ _ _ _ H1) Hv) as Hv1.
+          destruct Hcase as [(-> & -> & ->)|(-> & u & H2 & ->)].
+          + exists 0. repeat split.
+            pose proof (lands_and cl cr (of_bool false mod W) 0 n off Hoff Ll) as L. cbn in L. apply L. intros H; exfalso; apply H; reflexivity.
+          + destruct (IHr RA _ off cr n2 Er Hoff f1 s1 _ s H2 Hv1) as (z & Hz2 & _ & Lr). inversion Hz2; subst z.
+            exists (of_bool u). repeat split; [apply of_bool_range|].
+            pose proof (lands_and cl cr (of_bool true mod W) (of_bool u mod W) n off Hoff Ll (fun _ => Lr)) as L. exact L. }
+      (* arithmetic and relational operators: both operands are evaluated *)
+      destruct (eval_binop _ _ o l rr st v s Lo He) as (f1 & f2 & x & y & st1 & sl & st2 & sr & z & S0 & E1 & S1 & E2 & S2 & Hb & ->).
+      pose proof (vars_ok_same _ _ S0 Hv) as Hv1.
+      pose proof (vars_ok_same _ _ (same_store_trans _ _ _ (eval_pure l Hpl _ _ _ _ E1) S1) Hv1) as Hv2.
+      (* what the operand generators land *)
+      assert (HL : forall r1 n1 o1 c n2, off0 <= o1 -> cg venv pool size nslots l r1 n1 o1 = Some (c, n2) ->
+                     in_int x = true /\ lands r1 c (x mod W) o1).
+      { intros r1 n1 o1 c n2 Ho1 Hc1. destruct (IHl r1 n1 o1 c n2 Hc1 Ho1 f1 st1 _ sl E1 Hv1) as (z0 & Hz0 & Hr0 & L).
+        inversion Hz0; subst z0. split; assumption. }
+      assert (HR : forall r1 n1 o1 c n2, off0 <= o1 -> cg venv pool size nslots rr r1 n1 o1 = Some (c, n2) ->
+                     in_int y = true /\ lands r1 c (y mod W) o1).
+      { intros r1 n1 o1 c n2 Ho1 Hc1. destruct (IHr r1 n1 o1 c n2 Hc1 Ho1 f2 st2 _ sr E2 Hv2) as (z0 & Hz0 & Hr0 & L).
+        inversion Hz0; subst z0. split; assumption. }
+      assert (Harith : forall opi code0 n0 n0', opi = ADD \/ opi = SUB ->
+                arith_code size nslots opi (simple rr) (cg venv pool size nslots l RA) (cg venv pool size nslots rr RA)
+                           (cg venv pool size nslots rr RB) n0 off = Some (code0, n0') ->
+                in_int x = true /\ in_int y = true /\ lands RA code0 (opw opi (x mod W) (y mod W)) off).
+      { intros opi code0 n0 n0' Hop Hc.
+        assert (Hxy : in_int x = true /\ in_int y = true).
+        { unfold arith_code in Hc. destruct (simple rr).
+          - destruct (cg venv pool size nslots l RA n0 off) as [[cl n1]|] eqn:El; [|discriminate]. cbn [obind] in Hc.
+            destruct (cg venv pool size nslots rr RB n1 off) as [[cr n2]|] eqn:Er; [|discriminate].
+            split; [exact (proj1 (HL _ _ _ _ _ Hoff El)) | exact (proj1 (HR _ _ _ _ _ Hoff Er))].
+          - destruct ((0 <=? off) && (off <? nslots)); [|discriminate].
+            destruct (cg venv pool size nslots rr RA n0 off) as [[cr n1]|] eqn:Er; [|discriminate]. cbn [obind] in Hc.
+            destruct (cg venv pool size nslots l RA n1 (off + 1)) as [[cl n2]|] eqn:El; [|discriminate].
+            assert (Ho1 : off0 <= off + 1) by lia.
+            split; [exact (proj1 (HL _ _ _ _ _ Ho1 El)) | exact (proj1 (HR _ _ _ _ _ Hoff Er))]. }
+        destruct Hxy as [Hx Hy]. repeat split; try assumption.
+        eapply arith_correct; try eassumption.
+        - intros n1 o1 c n2 Ho1 Hc1. exact (proj2 (HL _ _ _ _ _ Ho1 Hc1)).
+        - intros n1 o1 c n2 Ho1 Hc1. exact (proj2 (HR _ _ _ _ _ Ho1 Hc1)).
+        - intros n1 o1 c n2 Ho1 Hc1. exact (proj2 (HR _ _ _ _ _ Ho1 Hc1)). }
+      destruct o; try discriminate.
+      + (* plus *)
+        cbn [binop_ans] in Hb. destruct (in_int (x + y)) eqn:Ez; [|discriminate]. inversion Hb; subst z.
+        destruct (Harith ADD code n n' (or_introl eq_refl) Hcg) as (_ & _ & L).
+        exists (x + y). repeat split; [exact Ez|]. cbn [opw] in L. rewrite wrap_add in L. exact L.
+      + (* minus *)
+        cbn [binop_ans] in Hb. destruct (in_int (x - y)) eqn:Ez; [|discriminate]. inversion Hb; subst z.
+        destruct (Harith SUB code n n' (or_intror eq_refl) Hcg) as (_ & _ & L).
+        exists (x - y). repeat split; [exact Ez|]. cbn [opw] in L. rewrite wrap_sub in L. exact L.
+      + (* = *)
+        cbn [binop_ans] in Hb. inversion Hb; subst z. exists (of_bool (x =? y)). repeat split; [apply of_bool_range|].
+        destruct (is_zero l) eqn:Zl.
+        * destruct (cg venv pool size nslots rr RA n off) as [[c n1]|] eqn:Er; [|discriminate]. cbn [obind] in Hcg.
+          inversion Hcg; subst code n'. destruct (HR _ _ _ _ _ Hoff Er) as [Hy L].
+          pose proof (is_zero_eval l _ _ _ _ Zl E1) as ->.
+          pose proof (lands_bool_tail_brz c _ n1 off Hoff L) as L2. rewrite (word_zero y Hy) in L2.
+          replace (of_bool (0 =? y) mod W) with (if y =? 0 then 1 else 0); [exact L2|].
+          rewrite (Z.eqb_sym 0 y). destruct (y =? 0); reflexivity.
+        * destruct (is_zero rr) eqn:Zr.
+          -- destruct (cg venv pool size nslots l RA n off) as [[c n1]|] eqn:El; [|discriminate]. cbn [obind] in Hcg.
+             inversion Hcg; subst code n'. destruct (HL _ _ _ _ _ Hoff El) as [Hx L].
+             pose proof (is_zero_eval rr _ _ _ _ Zr E2) as ->.
+             pose proof (lands_bool_tail_brz c _ n1 off Hoff L) as L2. rewrite (word_zero x Hx) in L2.
+             replace (of_bool (x =? 0) mod W) with (if x =? 0 then 1 else 0); [exact L2|].
+             destruct (x =? 0); reflexivity.
+          -- destruct (arith_code size nslots SUB (simple rr) (cg venv pool size nslots l RA) (cg venv pool size nslots rr RA)
+                                  (cg venv pool size nslots rr RB) n off) as [[c n1]|] eqn:Ea; [|discriminate]. cbn [obind] in Hcg.
+             inversion Hcg; subst code n'. destruct (Harith SUB c n n1 (or_intror eq_refl) Ea) as (Hx & Hy & L).
+             cbn [opw] in L. rewrite wrap_sub in L.
+             pose proof (lands_bool_tail_brz c _ n1 off Hoff L) as L2. rewrite (word_eq x y Hx Hy) in L2.
+             replace (of_bool (x =? y) mod W) with (if x =? y then 1 else 0); [exact L2|].
+             destruct (x =? y); reflexivity.
+      + (* < *)
+        cbn [binop_ans] in Hb. destruct (in_int (x - y) && in_int (y - x)) eqn:Ed; [|discriminate]. inversion Hb; subst z.
+        apply andb_prop in Ed. destruct Ed as [Ed _].
+        exists (of_bool (x <? y)). repeat split; [apply of_bool_range|].
+        destruct (is_zero rr) eqn:Zr.
+        * destruct (cg venv pool size nslots l RA n off) as [[c n1]|] eqn:El; [|discriminate]. cbn [obind] in Hcg.
+          inversion Hcg; subst code n'. destruct (HL _ _ _ _ _ Hoff El) as [Hx L].
+          pose proof (is_zero_eval rr _ _ _ _ Zr E2) as ->.
+          pose proof (lands_bool_tail_brn c _ n1 off Hoff L) as L2. rewrite (word_negative x Hx) in L2.
+          replace (of_bool (x <? 0) mod W) with (if x <? 0 then 1 else 0); [exact L2|].
+          destruct (x <? 0); reflexivity.
+        * destruct (arith_code size nslots SUB (simple rr) (cg venv pool size nslots l RA) (cg venv pool size nslots rr RA)
+                               (cg venv pool size nslots rr RB) n off) as [[c n1]|] eqn:Ea; [|discriminate]. cbn [obind] in Hcg.
+          inversion Hcg; subst code n'. destruct (Harith SUB c n n1 (or_intror eq_refl) Ea) as (Hx & Hy & L).
+          cbn [opw] in L. rewrite wrap_sub in L.
+          pose proof (lands_bool_tail_brn c _ n1 off Hoff L) as L2. rewrite (word_negative (x - y) Ed) in L2.
+          replace (of_bool (x <? y) mod W) with (if x - y <? 0 then 1 else 0); [exact L2|].
+          destruct (x <? y) eqn:E1'; [apply Z.ltb_lt in E1' | apply Z.ltb_ge in E1'].
+          -- replace (x - y <? 0) with true by (symmetry; apply Z.ltb_lt; lia). reflexivity.
+          -- replace (x - y <? 0) with false by (symmetry; apply Z.ltb_ge; lia). reflexivity.
   Qed.
 
   (* the statement used in Properties_C01 *)
-  Corollary expr_fragment : forall e off code, cg addr size nslots e RA off = Some code -> 0 <= off ->
-    forall f st n s, eval f ge e st = Ret (Vint n) s -> env_ok st ->
-    forall pos nxt a b inp, code_at C pos code nxt -> nxt < W ->
-    exists k s', Isa.run k (mk pos a b 0 m0) inp [] = ([], inp, s', Cut) /\
-                 pc s' = nxt /\ areg s' = n mod W /\ oreg s' = 0 /\ keeps off m0 (mem s').
+  Corollary expr_fragment : forall e n off code n', cg venv pool size nslots e RA n off = Some (code, n') -> off0 <= off ->
+    forall f st z s, eval f ge e st = Ret (Vint z) s -> vars_ok st ->
+    forall pos nxt a b inp, code_at C lab pos code nxt -> 0 <= pos -> nxt < W ->
+    exists k s', Isa.run k (mk pos a b 0 mr) inp [] = ([], inp, s', Cut) /\
+                 pc s' = nxt /\ areg s' = z mod W /\ oreg s' = 0 /\ keeps off mr (mem s').
   Proof.
-    intros e off code Hcg Hoff f st n s He Henv pos nxt a b inp Hc Hn.
-    destruct (cg_correct e RA off code Hcg Hoff f st (Vint n) s He Henv) as [_ (n' & Hn' & L)]. inversion Hn'; subst n'.
-    destruct (L m0 pos nxt a b inp C_m0 Hc Hn) as (b' & m' & [k Hk] & K).
-    exists k, (mk nxt (n mod W) b' 0 m'). repeat split; [exact Hk | exact K].
+    intros e n off code n' Hcg Hoff f st z s He Hv pos nxt a b inp Hc Hp Hn.
+    destruct (cg_correct e RA n off code n' Hcg Hoff f st (Vint z) s He Hv) as (z' & Hz & _ & L). inversion Hz; subst z'.
+    destruct (L mr pos nxt a b inp K_mr Hc Hp Hn) as (b' & m' & [k Hk] & Kp).
+    exists k, (mk nxt (z mod W) b' 0 m'). repeat split; [exact Hk | exact Kp].
   Qed.
 End Correct.
